@@ -1,6 +1,1237 @@
-//! C14 — not built yet.
-use crate::rt::*;
+//! C14 — serialization round-trips every object exactly, sizes exact, across contexts.
+//!
+//! Workload: parameter sets whose primes sit on and around every byte-width boundary (1..8 bytes per
+//! residue, mixed widths within one chain), all three schemes; for each a "zoo" of every serializable
+//! type and format. Observed: bytes written (counting writer), announced size, bytes consumed (cursor
+//! position with trailing garbage / inside a concatenation), the restored object. Oracle: field-by-field
+//! equality with the original (seeded objects: with their expanded form; selected-terms format: with the
+//! reference masking computed by the naive transforms of `refm`), in the same context and in a context
+//! rebuilt from the deserialized parameters.
+//!
+//! The object zoo (`Obj`, `Env`, `build_zoo`, `gen_spec`) is shared with C15.
 
-pub fn run(_cfg: &Cfg, _rep: &mut Report) -> PropMeta {
-    PropMeta { id: "C14", level: "exploration", rule: "not built", assumptions: vec![], exhaustive: false, floor: 1 }
+use crate::he::*;
+use crate::refm;
+use crate::rt::*;
+use heathcliff::app::matmul::cipher3d::{Cipher3d, Plain3d};
+use heathcliff::app::matmul::{Cipher1d, Cipher2d, Plain1d, Plain2d};
+use heathcliff::app::rns_plain::{RnspCiphertext, RnspGaloisKeys, RnspHeContext, RnspPublicKey, RnspRelinKeys, RnspSerializableWithHeContext};
+use heathcliff::*;
+use serde_json::json;
+use std::io::{Cursor, Read, Write};
+use std::sync::Arc;
+
+const P: &str = "C14";
+
+// ------------------------------------------------------------------ formats, environment, objects
+#[derive(Clone, Debug, PartialEq)]
+pub enum Fmt { Compact, Full, Terms(Vec<usize>) }
+impl Fmt {
+    pub fn name(&self) -> &'static str { match self { Fmt::Compact => "compact", Fmt::Full => "full", Fmt::Terms(_) => "terms" } }
+}
+
+/// the context(s) an object is (de)serialized against
+pub struct Env { pub ctx: Arc<HeContext>, pub rnsp: Option<RnspHeContext> }
+
+#[derive(Clone)]
+pub enum Obj {
+    Parms(EncryptionParameters), Modulus(Modulus), Plain(Plaintext),
+    Ct(Ciphertext, Fmt), VecCt(Vec<Ciphertext>),
+    Sk(SecretKey), Pk(PublicKey), Relin(RelinKeys), Galois(GaloisKeys), KSwitch(KSwitchKeys),
+    P1(Plain1d), P2(Plain2d), P3(Plain3d),
+    C1(Cipher1d, Fmt), C2(Cipher2d, Fmt), C3(Cipher3d, Fmt),
+    Poly(Vec<u64>, ParmsID),
+    RCt(RnspCiphertext, Fmt), RVecCt(Vec<RnspCiphertext>), RPk(RnspPublicKey), RRelin(RnspRelinKeys), RGalois(RnspGaloisKeys),
+}
+
+pub fn expand_ct(ctx: &HeContext, c: &Ciphertext) -> Ciphertext { if c.contains_seed() { c.clone().expand_seed(ctx) } else { c.clone() } }
+fn expand_pk(ctx: &HeContext, k: &PublicKey) -> PublicKey { PublicKey::new(expand_ct(ctx, k.as_ciphertext())) }
+fn expand_ksk(ctx: &HeContext, k: &KSwitchKeys) -> KSwitchKeys {
+    KSwitchKeys::from_members(*k.parms_id(), k.keys().iter().map(|v| v.iter().map(|p| expand_pk(ctx, p)).collect()).collect())
+}
+fn map_c1(c: &Cipher1d, f: &dyn Fn(&Ciphertext) -> Ciphertext) -> Cipher1d { Cipher1d::new(c.data.iter().map(|x| f(x)).collect()) }
+fn map_c2(c: &Cipher2d, f: &dyn Fn(&Ciphertext) -> Ciphertext) -> Cipher2d { Cipher2d::new_1ds(c.data.iter().map(|x| map_c1(x, f)).collect()) }
+fn map_c3(c: &Cipher3d, f: &dyn Fn(&Ciphertext) -> Ciphertext) -> Cipher3d { Cipher3d::new_2ds(c.data.iter().map(|x| map_c2(x, f)).collect()) }
+
+/// Reference for the selected-terms format: polynomial 0 keeps exactly the selected coefficients (in
+/// coefficient form) and zeros elsewhere; the other polynomials and all metadata are unchanged.
+pub fn terms_reference(ctx: &HeContext, c: &Ciphertext, terms: &[usize]) -> Ciphertext {
+    let cd = ctx.get_context_data(c.parms_id()).expect("ciphertext level");
+    let qs: Vec<u64> = cd.parms().coeff_modulus().iter().map(|m| m.value()).collect();
+    let tables = cd.small_ntt_tables();
+    let n = c.poly_modulus_degree();
+    let mut out = c.clone();
+    for (j, &q) in qs.iter().enumerate() {
+        let comp = c.poly_component(0, j).to_vec();
+        let coef = if c.is_ntt_form() { refm::intt_ref(&comp, tables[j].root(), q) } else { comp };
+        let mut masked = vec![0u64; n];
+        for &t in terms { masked[t] = coef[t]; }
+        let back = if c.is_ntt_form() { refm::ntt_ref(&masked, tables[j].root(), q) } else { masked };
+        out.poly_component_mut(0, j).copy_from_slice(&back);
+    }
+    out
+}
+
+type Diff = Option<(String, String)>;
+
+fn first_word_diff(a: &[u64], b: &[u64]) -> Option<usize> { a.iter().zip(b).position(|(x, y)| x != y) }
+
+pub fn diff_plain(a: &Plaintext, b: &Plaintext) -> Diff {
+    if a.parms_id() != b.parms_id() { return Some(("level_id".into(), format!("parms id {:?} vs {:?}", a.parms_id(), b.parms_id()))); }
+    if a.coeff_count() != b.coeff_count() { return Some(("coeff_count".into(), format!("coeff_count {} vs restored {}", a.coeff_count(), b.coeff_count()))); }
+    if a.scale().to_bits() != b.scale().to_bits() { return Some(("scale".into(), format!("scale bits {:#x} vs restored {:#x}", a.scale().to_bits(), b.scale().to_bits()))); }
+    if a.data().len() != b.data().len() { return Some(("data_len".into(), format!("{} words vs restored {}", a.data().len(), b.data().len()))); }
+    if let Some(i) = first_word_diff(a.data(), b.data()) { return Some(("words".into(), format!("word {}: {} vs restored {}", i, a.data()[i], b.data()[i]))); }
+    None
+}
+
+fn diff_ct_meta(a: &Ciphertext, b: &Ciphertext) -> Diff {
+    if a.size() != b.size() { return Some(("size".into(), format!("size {} vs restored {}", a.size(), b.size()))); }
+    if a.coeff_modulus_size() != b.coeff_modulus_size() || a.poly_modulus_degree() != b.poly_modulus_degree() {
+        return Some(("dimensions".into(), format!("k={} n={} vs restored k={} n={}", a.coeff_modulus_size(), a.poly_modulus_degree(), b.coeff_modulus_size(), b.poly_modulus_degree())));
+    }
+    if a.parms_id() != b.parms_id() { return Some(("level_id".into(), format!("parms id {:?} vs restored {:?}", a.parms_id(), b.parms_id()))); }
+    if a.is_ntt_form() != b.is_ntt_form() { return Some(("representation".into(), format!("is_ntt_form {} vs restored {}", a.is_ntt_form(), b.is_ntt_form()))); }
+    if a.scale().to_bits() != b.scale().to_bits() { return Some(("scale".into(), format!("scale {:e} ({:#x}) vs restored {:e} ({:#x})", a.scale(), a.scale().to_bits(), b.scale(), b.scale().to_bits()))); }
+    if a.correction_factor() != b.correction_factor() { return Some(("correction_factor".into(), format!("correction factor {} vs restored {}", a.correction_factor(), b.correction_factor()))); }
+    if a.data().len() != b.data().len() { return Some(("data_len".into(), format!("{} words vs restored {}", a.data().len(), b.data().len()))); }
+    None
+}
+
+pub fn diff_ct(a: &Ciphertext, b: &Ciphertext) -> Diff {
+    if let Some(d) = diff_ct_meta(a, b) { return Some(d); }
+    if let Some(i) = first_word_diff(a.data(), b.data()) {
+        let per = (a.poly_modulus_degree() * a.coeff_modulus_size()).max(1);
+        let n = a.poly_modulus_degree().max(1);
+        return Some(("words".into(), format!("poly {} component {} coefficient {}: {} vs restored {}", i / per, (i % per) / n, i % n, a.data()[i], b.data()[i])));
+    }
+    None
+}
+
+/// selected-terms comparison: polynomial 0 is compared in coefficient form (reference inverse transform
+/// of the restored words), the rest word by word
+fn diff_ct_terms(ctx: &HeContext, a: &Ciphertext, b: &Ciphertext) -> Diff {
+    if let Some(d) = diff_ct_meta(a, b) { return Some(d); }
+    if a.data() == b.data() { return None; }
+    let per = a.poly_modulus_degree() * a.coeff_modulus_size();
+    if a.size() > 1 { if let Some(i) = first_word_diff(&a.data()[per..], &b.data()[per..]) {
+        let i = i + per; let n = a.poly_modulus_degree();
+        return Some(("other_polys".into(), format!("poly {} component {} coefficient {}: {} vs restored {}", i / per, (i % per) / n, i % n, a.data()[i], b.data()[i])));
+    } }
+    let cd = ctx.get_context_data(a.parms_id()).expect("level");
+    let qs: Vec<u64> = cd.parms().coeff_modulus().iter().map(|m| m.value()).collect();
+    let tables = cd.small_ntt_tables();
+    for (j, &q) in qs.iter().enumerate() {
+        let (ca, cb) = (a.poly_component(0, j), b.poly_component(0, j));
+        if ca == cb { continue; }
+        if let Some(k) = cb.iter().position(|&x| x >= q) { return Some(("poly0_noncanonical".into(), format!("component {} word {} = {} >= modulus {}", j, k, cb[k], q))); }
+        let (xa, xb) = if a.is_ntt_form() { (refm::intt_ref(ca, tables[j].root(), q), refm::intt_ref(cb, tables[j].root(), q)) } else { (ca.to_vec(), cb.to_vec()) };
+        if let Some(k) = first_word_diff(&xa, &xb) { return Some(("poly0_terms".into(), format!("component {} coefficient {} (coefficient form): expected {} restored {}", j, k, xa[k], xb[k]))); }
+    }
+    Some(("poly0_words".into(), "words differ although the coefficient forms agree".into()))
+}
+
+fn diff_ksk(a: &KSwitchKeys, b: &KSwitchKeys) -> Diff {
+    if a.parms_id() != b.parms_id() { return Some(("level_id".into(), "key parms id differs".into())); }
+    if a.keys().len() != b.keys().len() { return Some(("key_slots".into(), format!("{} key slots vs restored {}", a.keys().len(), b.keys().len()))); }
+    for (i, (x, y)) in a.keys().iter().zip(b.keys()).enumerate() {
+        if x.len() != y.len() { return Some(("key_index".into(), format!("slot {} holds {} keys vs restored {}", i, x.len(), y.len()))); }
+        for (j, (p, r)) in x.iter().zip(y).enumerate() {
+            if let Some((f, d)) = diff_ct(p.as_ciphertext(), r.as_ciphertext()) { return Some((f, format!("slot {} key {}: {}", i, j, d))); }
+        }
+    }
+    None
+}
+
+fn diff_p1(a: &Plain1d, b: &Plain1d) -> Diff {
+    if a.data.len() != b.data.len() { return Some(("container_len".into(), format!("{} elements vs restored {}", a.data.len(), b.data.len()))); }
+    for (i, (x, y)) in a.data.iter().zip(&b.data).enumerate() { if let Some((f, d)) = diff_plain(x, y) { return Some((f, format!("[{}]: {}", i, d))); } }
+    None
+}
+fn diff_p2(a: &Plain2d, b: &Plain2d) -> Diff {
+    if a.data.len() != b.data.len() { return Some(("container_len".into(), format!("{} rows vs restored {}", a.data.len(), b.data.len()))); }
+    for (i, (x, y)) in a.data.iter().zip(&b.data).enumerate() { if let Some((f, d)) = diff_p1(x, y) { return Some((f, format!("[{}]{}", i, d))); } }
+    None
+}
+fn diff_p3(a: &Plain3d, b: &Plain3d) -> Diff {
+    if a.data.len() != b.data.len() { return Some(("container_len".into(), format!("{} planes vs restored {}", a.data.len(), b.data.len()))); }
+    for (i, (x, y)) in a.data.iter().zip(&b.data).enumerate() { if let Some((f, d)) = diff_p2(x, y) { return Some((f, format!("[{}]{}", i, d))); } }
+    None
+}
+fn diff_c1(a: &Cipher1d, b: &Cipher1d, f: &dyn Fn(&Ciphertext, &Ciphertext) -> Diff) -> Diff {
+    if a.data.len() != b.data.len() { return Some(("container_len".into(), format!("{} elements vs restored {}", a.data.len(), b.data.len()))); }
+    for (i, (x, y)) in a.data.iter().zip(&b.data).enumerate() { if let Some((k, d)) = f(x, y) { return Some((k, format!("[{}]: {}", i, d))); } }
+    None
+}
+fn diff_c2(a: &Cipher2d, b: &Cipher2d, f: &dyn Fn(&Ciphertext, &Ciphertext) -> Diff) -> Diff {
+    if a.data.len() != b.data.len() { return Some(("container_len".into(), format!("{} rows vs restored {}", a.data.len(), b.data.len()))); }
+    for (i, (x, y)) in a.data.iter().zip(&b.data).enumerate() { if let Some((k, d)) = diff_c1(x, y, f) { return Some((k, format!("[{}]{}", i, d))); } }
+    None
+}
+fn diff_c3(a: &Cipher3d, b: &Cipher3d, f: &dyn Fn(&Ciphertext, &Ciphertext) -> Diff) -> Diff {
+    if a.data.len() != b.data.len() { return Some(("container_len".into(), format!("{} planes vs restored {}", a.data.len(), b.data.len()))); }
+    for (i, (x, y)) in a.data.iter().zip(&b.data).enumerate() { if let Some((k, d)) = diff_c2(x, y, f) { return Some((k, format!("[{}]{}", i, d))); } }
+    None
+}
+fn diff_parms(a: &EncryptionParameters, b: &EncryptionParameters) -> Diff {
+    if a.scheme() != b.scheme() { return Some(("scheme".into(), format!("{:?} vs restored {:?}", a.scheme(), b.scheme()))); }
+    if a.poly_modulus_degree() != b.poly_modulus_degree() { return Some(("degree".into(), format!("{} vs restored {}", a.poly_modulus_degree(), b.poly_modulus_degree()))); }
+    let (qa, qb): (Vec<u64>, Vec<u64>) = (a.coeff_modulus().iter().map(|m| m.value()).collect(), b.coeff_modulus().iter().map(|m| m.value()).collect());
+    if qa != qb { return Some(("coeff_modulus".into(), format!("{:?} vs restored {:?}", qa, qb))); }
+    if a.plain_modulus().value() != b.plain_modulus().value() { return Some(("plain_modulus".into(), format!("{} vs restored {}", a.plain_modulus().value(), b.plain_modulus().value()))); }
+    if a.use_special_prime_for_encryption() != b.use_special_prime_for_encryption() { return Some(("special_prime_flag".into(), "flag differs".into())); }
+    if a.parms_id() != b.parms_id() { return Some(("parms_id".into(), format!("{:?} vs restored {:?}", a.parms_id(), b.parms_id()))); }
+    None
+}
+
+fn ct_attrs(ctx: &HeContext, c: &Ciphertext) -> String {
+    let lvl = ctx.get_context_data(c.parms_id()).map(|d| d.chain_index() as i64).unwrap_or(-1);
+    format!("size{}|chain{}|{}|{}", c.size(), lvl, if c.is_ntt_form() { "ntt" } else { "coef" }, if c.contains_seed() { "seeded" } else { "expanded" })
+}
+fn c1_seeded(c: &Cipher1d) -> bool { c.data.iter().any(|x| x.contains_seed()) }
+
+impl Obj {
+    pub fn type_name(&self) -> String {
+        match self {
+            Obj::Parms(_) => "EncryptionParameters".into(), Obj::Modulus(_) => "Modulus".into(), Obj::Plain(_) => "Plaintext".into(),
+            Obj::Ct(_, f) => format!("Ciphertext/{}", f.name()), Obj::VecCt(_) => "Vec<Ciphertext>".into(),
+            Obj::Sk(_) => "SecretKey".into(), Obj::Pk(_) => "PublicKey".into(), Obj::Relin(_) => "RelinKeys".into(),
+            Obj::Galois(_) => "GaloisKeys".into(), Obj::KSwitch(_) => "KSwitchKeys".into(),
+            Obj::P1(_) => "Plain1d".into(), Obj::P2(_) => "Plain2d".into(), Obj::P3(_) => "Plain3d".into(),
+            Obj::C1(_, f) => format!("Cipher1d/{}", f.name()), Obj::C2(_, f) => format!("Cipher2d/{}", f.name()), Obj::C3(_, f) => format!("Cipher3d/{}", f.name()),
+            Obj::Poly(_, _) => "PolynomialSerializer".into(),
+            Obj::RCt(_, f) => format!("RnspCiphertext/{}", f.name()), Obj::RVecCt(_) => "Vec<RnspCiphertext>".into(),
+            Obj::RPk(_) => "RnspPublicKey".into(), Obj::RRelin(_) => "RnspRelinKeys".into(), Obj::RGalois(_) => "RnspGaloisKeys".into(),
+        }
+    }
+    /// does the object (or an element of it) carry a seed?
+    pub fn seeded(&self) -> bool {
+        match self {
+            Obj::Ct(c, _) => c.contains_seed(), Obj::VecCt(v) => v.iter().any(|c| c.contains_seed()),
+            Obj::Pk(k) => k.contains_seed(),
+            Obj::Relin(k) => k.as_kswitch_keys().keys().iter().flatten().any(|p| p.contains_seed()),
+            Obj::Galois(k) => k.as_kswitch_keys().keys().iter().flatten().any(|p| p.contains_seed()),
+            Obj::KSwitch(k) => k.keys().iter().flatten().any(|p| p.contains_seed()),
+            Obj::C1(c, _) => c1_seeded(c), Obj::C2(c, _) => c.data.iter().any(c1_seeded), Obj::C3(c, _) => c.data.iter().any(|x| x.data.iter().any(c1_seeded)),
+            Obj::RCt(c, _) => c.components.iter().any(|x| x.contains_seed()),
+            Obj::RVecCt(v) => v.iter().any(|c| c.components.iter().any(|x| x.contains_seed())),
+            Obj::RPk(k) => k.components.iter().any(|x| x.contains_seed()),
+            Obj::RRelin(k) => k.components.iter().any(|r| r.as_kswitch_keys().keys().iter().flatten().any(|p| p.contains_seed())),
+            Obj::RGalois(k) => k.components.iter().any(|r| r.as_kswitch_keys().keys().iter().flatten().any(|p| p.contains_seed())),
+            _ => false,
+        }
+    }
+    /// finer structural attributes (coverage only)
+    pub fn attrs(&self, env: &Env) -> String {
+        match self {
+            Obj::Ct(c, Fmt::Terms(t)) => format!("{}|terms{}", ct_attrs(&env.ctx, c), if t.is_empty() { "0".into() } else if t.len() == c.poly_modulus_degree() { "N".to_string() } else if t.len() == 1 { "1".into() } else { "k".into() }),
+            Obj::Ct(c, _) => ct_attrs(&env.ctx, c),
+            Obj::Plain(p) => format!("{}|len{}", if p.is_ntt_form() { "ntt" } else { "coef" }, if p.data().is_empty() { "0" } else if p.data().len() == 1 { "1" } else { "k" }),
+            Obj::Galois(k) => { let ks = k.as_kswitch_keys(); format!("slots{}|present{}|{}", ks.keys().len(), ks.len().min(3), if self.seeded() { "seeded" } else { "expanded" }) }
+            Obj::C1(c, _) => format!("len{}|{}", c.data.len().min(3), if self.seeded() { "seeded" } else { "expanded" }),
+            Obj::C2(c, _) => format!("len{}|{}", c.data.len().min(3), if self.seeded() { "seeded" } else { "expanded" }),
+            Obj::C3(c, _) => format!("len{}|{}", c.data.len().min(3), if self.seeded() { "seeded" } else { "expanded" }),
+            Obj::P1(c) => format!("len{}", c.data.len().min(3)), Obj::P2(c) => format!("len{}", c.data.len().min(3)), Obj::P3(c) => format!("len{}", c.data.len().min(3)),
+            Obj::Poly(_, id) => (if *id == PARMS_ID_ZERO { "plain_modulus" } else { "coeff_modulus" }).to_string(),
+            _ => (if self.seeded() { "seeded" } else { "expanded" }).to_string(),
+        }
+    }
+
+    pub fn write(&self, env: &Env, w: &mut dyn Write) -> std::io::Result<usize> {
+        let mut w = w;
+        let s = &mut w;
+        let ctx: &HeContext = &env.ctx;
+        match self {
+            Obj::Parms(x) => Serializable::serialize(x, s),
+            Obj::Modulus(x) => Serializable::serialize(x, s),
+            Obj::Plain(x) => Serializable::serialize(x, s),
+            Obj::Ct(x, Fmt::Compact) => SerializableWithHeContext::serialize(x, ctx, s),
+            Obj::Ct(x, Fmt::Full) => x.serialize_full(ctx, s),
+            Obj::Ct(x, Fmt::Terms(t)) => x.serialize_terms(ctx, t, s),
+            Obj::VecCt(x) => SerializableWithHeContext::serialize(x, ctx, s),
+            Obj::Sk(x) => Serializable::serialize(x, s),
+            Obj::Pk(x) => SerializableWithHeContext::serialize(x, ctx, s),
+            Obj::Relin(x) => SerializableWithHeContext::serialize(x, ctx, s),
+            Obj::Galois(x) => SerializableWithHeContext::serialize(x, ctx, s),
+            Obj::KSwitch(x) => SerializableWithHeContext::serialize(x, ctx, s),
+            Obj::P1(x) => Serializable::serialize(x, s),
+            Obj::P2(x) => Serializable::serialize(x, s),
+            Obj::P3(x) => Serializable::serialize(x, s),
+            Obj::C1(x, Fmt::Terms(t)) => x.serialize_terms(ctx, t, s),
+            Obj::C1(x, _) => SerializableWithHeContext::serialize(x, ctx, s),
+            Obj::C2(x, Fmt::Terms(t)) => x.serialize_terms(ctx, t, s),
+            Obj::C2(x, _) => SerializableWithHeContext::serialize(x, ctx, s),
+            Obj::C3(x, Fmt::Terms(t)) => x.serialize_terms(ctx, t, s),
+            Obj::C3(x, _) => SerializableWithHeContext::serialize(x, ctx, s),
+            Obj::Poly(d, id) => PolynomialSerializer::serialize_polynomial(ctx, s, d, *id),
+            Obj::RCt(x, Fmt::Compact) => RnspSerializableWithHeContext::serialize(x, env.rnsp.as_ref().expect("rnsp env"), s),
+            Obj::RCt(x, Fmt::Full) => x.serialize_full(env.rnsp.as_ref().expect("rnsp env"), s),
+            Obj::RCt(x, Fmt::Terms(t)) => x.serialize_terms(env.rnsp.as_ref().expect("rnsp env"), t, s),
+            Obj::RVecCt(x) => RnspSerializableWithHeContext::serialize(x, env.rnsp.as_ref().expect("rnsp env"), s),
+            Obj::RPk(x) => RnspSerializableWithHeContext::serialize(x, env.rnsp.as_ref().expect("rnsp env"), s),
+            Obj::RRelin(x) => RnspSerializableWithHeContext::serialize(x, env.rnsp.as_ref().expect("rnsp env"), s),
+            Obj::RGalois(x) => RnspSerializableWithHeContext::serialize(x, env.rnsp.as_ref().expect("rnsp env"), s),
+        }
+    }
+
+    /// the size the library announces for this object/format
+    pub fn announced(&self, env: &Env) -> usize {
+        let ctx: &HeContext = &env.ctx;
+        match self {
+            Obj::Parms(x) => Serializable::serialized_size(x),
+            Obj::Modulus(x) => Serializable::serialized_size(x),
+            Obj::Plain(x) => Serializable::serialized_size(x),
+            Obj::Ct(x, Fmt::Compact) => SerializableWithHeContext::serialized_size(x, ctx),
+            Obj::Ct(x, Fmt::Full) => x.serialized_full_size(ctx),
+            Obj::Ct(x, Fmt::Terms(t)) => x.serialized_terms_size(ctx, t.len()),
+            Obj::VecCt(x) => SerializableWithHeContext::serialized_size(x, ctx),
+            Obj::Sk(x) => Serializable::serialized_size(x),
+            Obj::Pk(x) => SerializableWithHeContext::serialized_size(x, ctx),
+            Obj::Relin(x) => SerializableWithHeContext::serialized_size(x, ctx),
+            Obj::Galois(x) => SerializableWithHeContext::serialized_size(x, ctx),
+            Obj::KSwitch(x) => SerializableWithHeContext::serialized_size(x, ctx),
+            Obj::P1(x) => Serializable::serialized_size(x),
+            Obj::P2(x) => Serializable::serialized_size(x),
+            Obj::P3(x) => Serializable::serialized_size(x),
+            Obj::C1(x, Fmt::Terms(t)) => x.serialized_terms_size(ctx, t.len()),
+            Obj::C1(x, _) => SerializableWithHeContext::serialized_size(x, ctx),
+            Obj::C2(x, Fmt::Terms(t)) => x.serialized_terms_size(ctx, t.len()),
+            Obj::C2(x, _) => SerializableWithHeContext::serialized_size(x, ctx),
+            Obj::C3(x, Fmt::Terms(t)) => x.serialized_terms_size(ctx, t.len()),
+            Obj::C3(x, _) => SerializableWithHeContext::serialized_size(x, ctx),
+            Obj::Poly(_, id) => (PolynomialSerializer {}).serialized_polynomial_size(ctx, *id),
+            Obj::RCt(x, Fmt::Compact) => RnspSerializableWithHeContext::serialized_size(x, env.rnsp.as_ref().expect("rnsp env")),
+            Obj::RCt(x, Fmt::Full) => x.serialized_full_size(env.rnsp.as_ref().expect("rnsp env")),
+            Obj::RCt(x, Fmt::Terms(t)) => x.serialized_terms_size(env.rnsp.as_ref().expect("rnsp env"), t.len()),
+            Obj::RVecCt(x) => RnspSerializableWithHeContext::serialized_size(x, env.rnsp.as_ref().expect("rnsp env")),
+            Obj::RPk(x) => RnspSerializableWithHeContext::serialized_size(x, env.rnsp.as_ref().expect("rnsp env")),
+            Obj::RRelin(x) => RnspSerializableWithHeContext::serialized_size(x, env.rnsp.as_ref().expect("rnsp env")),
+            Obj::RGalois(x) => RnspSerializableWithHeContext::serialized_size(x, env.rnsp.as_ref().expect("rnsp env")),
+        }
+    }
+
+    /// deserialize an object of the same type/format as `self` from `r`
+    pub fn read_like(&self, env: &Env, r: &mut dyn Read) -> std::io::Result<Obj> {
+        let mut r = r;
+        let s = &mut r;
+        let ctx: &HeContext = &env.ctx;
+        Ok(match self {
+            Obj::Parms(_) => Obj::Parms(<EncryptionParameters as Serializable>::deserialize(s)?),
+            Obj::Modulus(_) => Obj::Modulus(<Modulus as Serializable>::deserialize(s)?),
+            Obj::Plain(_) => Obj::Plain(<Plaintext as Serializable>::deserialize(s)?),
+            Obj::Ct(_, Fmt::Compact) => Obj::Ct(<Ciphertext as SerializableWithHeContext>::deserialize(ctx, s)?, Fmt::Compact),
+            Obj::Ct(_, Fmt::Full) => Obj::Ct(Ciphertext::deserialize_full(ctx, s)?, Fmt::Full),
+            Obj::Ct(_, Fmt::Terms(t)) => Obj::Ct(Ciphertext::deserialize_terms(ctx, t, s)?, Fmt::Terms(t.clone())),
+            Obj::VecCt(_) => Obj::VecCt(<Vec<Ciphertext> as SerializableWithHeContext>::deserialize(ctx, s)?),
+            Obj::Sk(_) => Obj::Sk(<SecretKey as Serializable>::deserialize(s)?),
+            Obj::Pk(_) => Obj::Pk(<PublicKey as SerializableWithHeContext>::deserialize(ctx, s)?),
+            Obj::Relin(_) => Obj::Relin(<RelinKeys as SerializableWithHeContext>::deserialize(ctx, s)?),
+            Obj::Galois(_) => Obj::Galois(<GaloisKeys as SerializableWithHeContext>::deserialize(ctx, s)?),
+            Obj::KSwitch(_) => Obj::KSwitch(<KSwitchKeys as SerializableWithHeContext>::deserialize(ctx, s)?),
+            Obj::P1(_) => Obj::P1(<Plain1d as Serializable>::deserialize(s)?),
+            Obj::P2(_) => Obj::P2(<Plain2d as Serializable>::deserialize(s)?),
+            Obj::P3(_) => Obj::P3(<Plain3d as Serializable>::deserialize(s)?),
+            Obj::C1(_, Fmt::Terms(t)) => Obj::C1(Cipher1d::deserialize_terms(ctx, t, s)?, Fmt::Terms(t.clone())),
+            Obj::C1(_, f) => Obj::C1(<Cipher1d as SerializableWithHeContext>::deserialize(ctx, s)?, f.clone()),
+            Obj::C2(_, Fmt::Terms(t)) => Obj::C2(Cipher2d::deserialize_terms(ctx, t, s)?, Fmt::Terms(t.clone())),
+            Obj::C2(_, f) => Obj::C2(<Cipher2d as SerializableWithHeContext>::deserialize(ctx, s)?, f.clone()),
+            Obj::C3(_, Fmt::Terms(t)) => Obj::C3(Cipher3d::deserialize_terms(ctx, t, s)?, Fmt::Terms(t.clone())),
+            Obj::C3(_, f) => Obj::C3(<Cipher3d as SerializableWithHeContext>::deserialize(ctx, s)?, f.clone()),
+            Obj::Poly(_, id) => Obj::Poly(PolynomialSerializer::deserialize_polynomial(ctx, s)?, *id),
+            Obj::RCt(_, Fmt::Compact) => Obj::RCt(<RnspCiphertext as RnspSerializableWithHeContext>::deserialize(env.rnsp.as_ref().expect("rnsp env"), s)?, Fmt::Compact),
+            Obj::RCt(_, Fmt::Full) => Obj::RCt(RnspCiphertext::deserialize_full(env.rnsp.as_ref().expect("rnsp env"), s)?, Fmt::Full),
+            Obj::RCt(_, Fmt::Terms(t)) => Obj::RCt(RnspCiphertext::deserialize_terms(env.rnsp.as_ref().expect("rnsp env"), t, s)?, Fmt::Terms(t.clone())),
+            Obj::RVecCt(_) => Obj::RVecCt(<Vec<RnspCiphertext> as RnspSerializableWithHeContext>::deserialize(env.rnsp.as_ref().expect("rnsp env"), s)?),
+            Obj::RPk(_) => Obj::RPk(<RnspPublicKey as RnspSerializableWithHeContext>::deserialize(env.rnsp.as_ref().expect("rnsp env"), s)?),
+            Obj::RRelin(_) => Obj::RRelin(<RnspRelinKeys as RnspSerializableWithHeContext>::deserialize(env.rnsp.as_ref().expect("rnsp env"), s)?),
+            Obj::RGalois(_) => Obj::RGalois(<RnspGaloisKeys as RnspSerializableWithHeContext>::deserialize(env.rnsp.as_ref().expect("rnsp env"), s)?),
+        })
+    }
+
+    /// what a correct deserializer must return: the object itself, seeds expanded, and for the
+    /// selected-terms format polynomial 0 masked to the selected coefficients
+    pub fn expected(&self, env: &Env) -> Obj {
+        let ctx: &HeContext = &env.ctx;
+        let full = |c: &Ciphertext| expand_ct(ctx, c);
+        match self {
+            Obj::Ct(c, Fmt::Terms(t)) => Obj::Ct(terms_reference(ctx, &expand_ct(ctx, c), t), Fmt::Terms(t.clone())),
+            Obj::Ct(c, f) => Obj::Ct(expand_ct(ctx, c), f.clone()),
+            Obj::VecCt(v) => Obj::VecCt(v.iter().map(|c| expand_ct(ctx, c)).collect()),
+            Obj::Pk(k) => Obj::Pk(expand_pk(ctx, k)),
+            Obj::Relin(k) => Obj::Relin(RelinKeys::new(expand_ksk(ctx, k.as_kswitch_keys()))),
+            Obj::Galois(k) => Obj::Galois(GaloisKeys::new(expand_ksk(ctx, k.as_kswitch_keys()))),
+            Obj::KSwitch(k) => Obj::KSwitch(expand_ksk(ctx, k)),
+            Obj::C1(c, Fmt::Terms(t)) => { let f = |x: &Ciphertext| terms_reference(ctx, &expand_ct(ctx, x), t); Obj::C1(map_c1(c, &f), Fmt::Terms(t.clone())) }
+            Obj::C2(c, Fmt::Terms(t)) => { let f = |x: &Ciphertext| terms_reference(ctx, &expand_ct(ctx, x), t); Obj::C2(map_c2(c, &f), Fmt::Terms(t.clone())) }
+            Obj::C3(c, Fmt::Terms(t)) => { let f = |x: &Ciphertext| terms_reference(ctx, &expand_ct(ctx, x), t); Obj::C3(map_c3(c, &f), Fmt::Terms(t.clone())) }
+            Obj::C1(c, f) => Obj::C1(map_c1(c, &full), f.clone()),
+            Obj::C2(c, f) => Obj::C2(map_c2(c, &full), f.clone()),
+            Obj::C3(c, f) => Obj::C3(map_c3(c, &full), f.clone()),
+            Obj::Poly(d, id) => {
+                let mut d = d.clone();
+                if *id == PARMS_ID_ZERO { d.resize(ctx.first_context_data().unwrap().parms().poly_modulus_degree(), 0); }
+                Obj::Poly(d, *id)
+            }
+            Obj::RCt(c, f) => {
+                let rn = env.rnsp.as_ref().expect("rnsp env");
+                let comps = c.components.iter().zip(&rn.components).map(|(x, cx)| match f { Fmt::Terms(t) => terms_reference(cx, &expand_ct(cx, x), t), _ => expand_ct(cx, x) }).collect();
+                Obj::RCt(RnspCiphertext::from_raw_parts(comps), f.clone())
+            }
+            Obj::RVecCt(v) => {
+                let rn = env.rnsp.as_ref().expect("rnsp env");
+                Obj::RVecCt(v.iter().map(|c| RnspCiphertext::from_raw_parts(c.components.iter().zip(&rn.components).map(|(x, cx)| expand_ct(cx, x)).collect())).collect())
+            }
+            Obj::RPk(k) => { let rn = env.rnsp.as_ref().expect("rnsp env"); Obj::RPk(RnspPublicKey::from_raw_parts(k.components.iter().zip(&rn.components).map(|(x, cx)| expand_pk(cx, x)).collect())) }
+            Obj::RRelin(k) => { let rn = env.rnsp.as_ref().expect("rnsp env"); Obj::RRelin(RnspRelinKeys::from_raw_parts(k.components.iter().zip(&rn.components).map(|(x, cx)| RelinKeys::new(expand_ksk(cx, x.as_kswitch_keys()))).collect())) }
+            Obj::RGalois(k) => { let rn = env.rnsp.as_ref().expect("rnsp env"); Obj::RGalois(RnspGaloisKeys::from_raw_parts(k.components.iter().zip(&rn.components).map(|(x, cx)| GaloisKeys::new(expand_ksk(cx, x.as_kswitch_keys()))).collect())) }
+            other => other.clone(),
+        }
+    }
+
+    /// field-by-field comparison; `self` is the expected object, `got` the restored one
+    pub fn diff(&self, got: &Obj, env: &Env) -> Option<(String, String)> {
+        let ctx: &HeContext = &env.ctx;
+        let plain_ct = |a: &Ciphertext, b: &Ciphertext| diff_ct(a, b);
+        let terms_ct = |a: &Ciphertext, b: &Ciphertext| diff_ct_terms(ctx, a, b);
+        match (self, got) {
+            (Obj::Parms(a), Obj::Parms(b)) => diff_parms(a, b),
+            (Obj::Modulus(a), Obj::Modulus(b)) => if a.value() != b.value() || a.bit_count() != b.bit_count() || a.const_ratio() != b.const_ratio() || a.is_prime() != b.is_prime() { Some(("modulus".into(), format!("{:?} vs restored {:?}", a, b))) } else { None },
+            (Obj::Plain(a), Obj::Plain(b)) => diff_plain(a, b),
+            (Obj::Ct(a, Fmt::Terms(_)), Obj::Ct(b, _)) => diff_ct_terms(ctx, a, b),
+            (Obj::Ct(a, _), Obj::Ct(b, _)) => diff_ct(a, b),
+            (Obj::VecCt(a), Obj::VecCt(b)) => diff_c1(&Cipher1d::new(a.clone()), &Cipher1d::new(b.clone()), &plain_ct),
+            (Obj::Sk(a), Obj::Sk(b)) => diff_plain(a.as_plaintext(), b.as_plaintext()),
+            (Obj::Pk(a), Obj::Pk(b)) => diff_ct(a.as_ciphertext(), b.as_ciphertext()),
+            (Obj::Relin(a), Obj::Relin(b)) => diff_ksk(a.as_kswitch_keys(), b.as_kswitch_keys()),
+            (Obj::Galois(a), Obj::Galois(b)) => diff_ksk(a.as_kswitch_keys(), b.as_kswitch_keys()),
+            (Obj::KSwitch(a), Obj::KSwitch(b)) => diff_ksk(a, b),
+            (Obj::P1(a), Obj::P1(b)) => diff_p1(a, b),
+            (Obj::P2(a), Obj::P2(b)) => diff_p2(a, b),
+            (Obj::P3(a), Obj::P3(b)) => diff_p3(a, b),
+            (Obj::C1(a, Fmt::Terms(_)), Obj::C1(b, _)) => diff_c1(a, b, &terms_ct),
+            (Obj::C2(a, Fmt::Terms(_)), Obj::C2(b, _)) => diff_c2(a, b, &terms_ct),
+            (Obj::C3(a, Fmt::Terms(_)), Obj::C3(b, _)) => diff_c3(a, b, &terms_ct),
+            (Obj::C1(a, _), Obj::C1(b, _)) => diff_c1(a, b, &plain_ct),
+            (Obj::C2(a, _), Obj::C2(b, _)) => diff_c2(a, b, &plain_ct),
+            (Obj::C3(a, _), Obj::C3(b, _)) => diff_c3(a, b, &plain_ct),
+            (Obj::Poly(a, _), Obj::Poly(b, _)) => {
+                if a.len() != b.len() { return Some(("data_len".into(), format!("{} words vs restored {}", a.len(), b.len()))); }
+                first_word_diff(a, b).map(|i| ("words".to_string(), format!("word {}: {} vs restored {}", i, a[i], b[i])))
+            }
+            (Obj::RCt(a, f), Obj::RCt(b, _)) => {
+                let rn = env.rnsp.as_ref().expect("rnsp env");
+                if a.components.len() != b.components.len() { return Some(("components".into(), format!("{} vs restored {}", a.components.len(), b.components.len()))); }
+                for (i, ((x, y), cx)) in a.components.iter().zip(&b.components).zip(&rn.components).enumerate() {
+                    let d = if let Fmt::Terms(_) = f { diff_ct_terms(cx, x, y) } else { diff_ct(x, y) };
+                    if let Some((k, d)) = d { return Some((k, format!("component {}: {}", i, d))); }
+                }
+                None
+            }
+            (Obj::RVecCt(a), Obj::RVecCt(b)) => {
+                if a.len() != b.len() { return Some(("container_len".into(), format!("{} vs restored {}", a.len(), b.len()))); }
+                for (i, (x, y)) in a.iter().zip(b).enumerate() {
+                    if x.components.len() != y.components.len() { return Some(("components".into(), format!("[{}]: {} vs restored {}", i, x.components.len(), y.components.len()))); }
+                    for (j, (p, q)) in x.components.iter().zip(&y.components).enumerate() { if let Some((k, d)) = diff_ct(p, q) { return Some((k, format!("[{}] component {}: {}", i, j, d))); } }
+                }
+                None
+            }
+            (Obj::RPk(a), Obj::RPk(b)) => {
+                if a.components.len() != b.components.len() { return Some(("components".into(), "count".into())); }
+                for (i, (x, y)) in a.components.iter().zip(&b.components).enumerate() { if let Some((k, d)) = diff_ct(x.as_ciphertext(), y.as_ciphertext()) { return Some((k, format!("component {}: {}", i, d))); } }
+                None
+            }
+            (Obj::RRelin(a), Obj::RRelin(b)) => {
+                if a.components.len() != b.components.len() { return Some(("components".into(), "count".into())); }
+                for (i, (x, y)) in a.components.iter().zip(&b.components).enumerate() { if let Some((k, d)) = diff_ksk(x.as_kswitch_keys(), y.as_kswitch_keys()) { return Some((k, format!("component {}: {}", i, d))); } }
+                None
+            }
+            (Obj::RGalois(a), Obj::RGalois(b)) => {
+                if a.components.len() != b.components.len() { return Some(("components".into(), "count".into())); }
+                for (i, (x, y)) in a.components.iter().zip(&b.components).enumerate() { if let Some((k, d)) = diff_ksk(x.as_kswitch_keys(), y.as_kswitch_keys()) { return Some((k, format!("component {}: {}", i, d))); } }
+                None
+            }
+            _ => Some(("type".into(), "restored object has a different type".into())),
+        }
+    }
+}
+
+// ------------------------------------------------------------------ parameter sets
+pub fn byte_width(q: u64) -> usize { (refm::bit_len(q) + 7) / 8 }
+
+const EDGE_BITS: [u32; 17] = [8, 9, 16, 17, 24, 25, 32, 33, 40, 41, 48, 49, 56, 57, 58, 59, 60];
+const T_BITS: [u32; 22] = [2, 3, 4, 7, 8, 9, 15, 16, 17, 23, 24, 25, 31, 32, 33, 40, 41, 48, 49, 56, 57, 60];
+
+/// parameter set with primes on and around the byte-width boundaries; `kmax` = largest chain length
+pub fn gen_spec(rng: &mut Rng, ns: &[usize], kmax: usize, t_bits_max: u32) -> Option<Spec> {
+    let scheme = *rng.pick(&[SchemeType::BFV, SchemeType::BGV, SchemeType::CKKS]);
+    let n = *rng.pick(ns);
+    let logm = (2 * n).trailing_zeros();
+    let minb = logm + 2; // smallest size that reliably holds a prime = 1 mod 2n
+    let k = rng.range(1, kmax as u64) as usize;
+    let fam = rng.below(5);
+    let edge = |rng: &mut Rng| (*rng.pick(&EDGE_BITS)).max(minb);
+    let bits: Vec<u32> = match fam {
+        0 => (0..k).map(|_| edge(rng)).collect(),
+        1 => (0..k).map(|_| rng.range(minb as u64, 60) as u32).collect(),
+        2 => { let b = edge(rng).max(minb + 3); vec![b; k] }
+        3 => { // one prime per distinct byte width, random order
+            let mut ws: Vec<u32> = (1..=8).collect(); rng.shuffle(&mut ws); ws.truncate(k);
+            ws.iter().map(|&w| { let hi = (8 * w).min(60); let lo = (8 * (w - 1) + 1).max(minb); if lo > hi { minb } else { rng.range(lo as u64, hi as u64) as u32 } }).collect()
+        }
+        _ => (0..k).map(|i| if i % 2 == 0 { minb + rng.below(3) as u32 } else { 60 - rng.below(3) as u32 }).collect(),
+    };
+    let fam_name = ["edges", "any", "uniform", "one_per_width", "extremes"][fam as usize];
+    let qs = coeff_primes(n, &bits, rng)?;
+    let t = if scheme == SchemeType::CKKS { 0 } else {
+        let data_bits: u32 = if k > 1 { bits[..k - 1].iter().sum() } else { bits[0] };
+        let cap = data_bits.saturating_sub(1).min(t_bits_max).max(2);
+        let cands: Vec<u32> = T_BITS.iter().copied().filter(|&b| b <= cap).collect();
+        let tb = *rng.pick(&cands);
+        let coprime = |c: u64| c >= 2 && qs.iter().all(|&q| refm::gcd(q, c) == 1);
+        let mut c = match rng.below(4) {
+            0 if tb >= minb => ntt_primes(n, tb, 6, 0).into_iter().find(|c| !qs.contains(c)).unwrap_or(1u64 << (tb - 1)),
+            1 => 1u64 << (tb - 1),
+            2 => (1u64 << tb) - 1,
+            _ => rng.bits(tb) | (1u64 << (tb - 1)),
+        };
+        if c < 2 { c = 2; }
+        let mut guard = 0;
+        while !coprime(c) { c = if c > 3 { c - 1 } else { c + 1 }; guard += 1; if guard > 64 { return None; } }
+        c
+    };
+    let special_flag = rng.chance(1, 6);
+    let expand = rng.chance(5, 6);
+    Some(Spec { scheme, n, qs, t, special_flag, expand, family: fam_name.to_string() })
+}
+
+// ------------------------------------------------------------------ the object zoo
+pub struct Item { pub label: String, pub obj: Obj, /// degenerate objects that are executed but not asserted
+    pub out_of_domain: bool }
+
+pub struct ZooOpts { pub max_size: usize, pub light: bool, pub rnsp: bool, pub terms_ntt_max_n: usize }
+
+#[derive(Default)]
+pub struct Interop {
+    pub plain: Option<(Plaintext, Vec<u64>)>,
+    pub seeded_ct: Option<Ciphertext>,
+    pub fresh: Vec<Ciphertext>,
+    pub pk_seeded: Option<PublicKey>,
+    pub relin_seeded: Option<RelinKeys>,
+    pub galois_seeded: Option<(GaloisKeys, Vec<usize>)>,
+    pub other_keygen: Option<KeyGenerator>,
+    pub ksk_seeded: Option<KSwitchKeys>,
+}
+
+pub struct Zoo { pub kit: Kit, pub kit_b: Option<Kit>, pub env: Env, pub items: Vec<Item>, pub interop: Interop, pub skips: Vec<(String, String)> }
+
+struct Builder<'a> { skips: &'a mut Vec<(String, String)> }
+impl<'a> Builder<'a> {
+    fn t<T>(&mut self, what: &str, f: impl FnOnce() -> T) -> Option<T> {
+        match lib(f) { Ok(v) => Some(v), Err(p) => { self.skips.push((what.to_string(), p.0)); None } }
+    }
+}
+
+pub fn gen_terms(rng: &mut Rng, n: usize) -> (&'static str, Vec<usize>) {
+    match rng.below(7) {
+        0 => ("empty", vec![]),
+        1 => ("single", vec![rng.usize_below(n)]),
+        2 => ("all", (0..n).collect()),
+        3 => ("all_reversed", (0..n).rev().collect()),
+        4 => { // the index pattern of the matmul helpers' output_terms(): i*ib*ob + j*ib + ib-1
+            let logn = n.trailing_zeros() as u64;
+            let a = rng.range(0, logn); let b = rng.range(0, logn - a); let c = rng.range(0, logn - a - b);
+            let (ib, ob, bb) = (1usize << a, 1usize << b, 1usize << c);
+            let mut v = vec![]; for i in 0..bb { for j in 0..ob { v.push(i * ib * ob + j * ib + ib - 1); } }
+            ("helper_pattern", v)
+        }
+        5 => ("last", vec![n - 1]),
+        _ => { let mut all: Vec<usize> = (0..n).collect(); rng.shuffle(&mut all); all.truncate(rng.range(1, n as u64) as usize); ("random_subset", all) }
+    }
+}
+
+fn weird_scale(rng: &mut Rng) -> f64 {
+    match rng.below(6) {
+        0 => 1.5e-7, 1 => (1u64 << 59) as f64 + 1024.0, 2 => f64::MIN_POSITIVE, 3 => 1e300,
+        4 => 3.0f64.powi(rng.range(1, 30) as i32),
+        _ => f64::from_bits((rng.range(900, 1200) << 52) | (rng.u64() & ((1u64 << 52) - 1))),
+    }
+}
+
+fn synthetic_ct(kit: &Kit, rng: &mut Rng, level: usize, size: usize, ntt: bool) -> Ciphertext {
+    let mut c = Ciphertext::new();
+    c.resize(&kit.ctx, kit.levels[level].parms_id(), size);
+    c.set_is_ntt_form(ntt);
+    let qs = kit.level_qs(level);
+    let n = kit.n();
+    let mode = rng.below(4);
+    for p in 0..size { for (j, &q) in qs.iter().enumerate() {
+        let w = byte_width(q) as u32;
+        for x in c.poly_component_mut(p, j).iter_mut() {
+            *x = match mode {
+                0 => q - 1,
+                1 => rng.below(q),
+                2 => match rng.below(6) { 0 => 0, 1 => 1, 2 => q - 1, 3 => ((1u64 << (8 * (w - 1))).wrapping_sub(1)) % q, 4 => (1u64 << (8 * (w - 1))) % q, _ => rng.below(q) },
+                _ => if rng.bool() { q - 1 - rng.below(q.min(256)) } else { rng.below(q.min(256)) },
+            };
+        }
+    } }
+    let _ = n;
+    match kit.spec.scheme {
+        SchemeType::BGV => c.set_correction_factor(rng.range(1, kit.t() - 1)),
+        SchemeType::CKKS => c.set_scale(weird_scale(rng)),
+        _ => {}
+    }
+    c
+}
+
+fn log2q(kit: &Kit, level: usize) -> f64 { kit.level_qs(level).iter().map(|&q| (q as f64).log2()).sum() }
+
+fn ckks_plain_at(kit: &Kit, rng: &mut Rng, level: usize, scale_bits_cap: f64) -> Option<Plaintext> {
+    let enc = kit.ckks.as_ref()?;
+    let n = kit.n();
+    let room = (log2q(kit, level) - (n as f64).log2() - 4.0).min(scale_bits_cap).floor();
+    if room < 0.0 { return None; }
+    let s = if room < 1.0 { 0 } else { rng.range(0, room as u64) as i32 };
+    let scale = 2f64.powi(s) * if s > 4 && rng.bool() { 1.0 + rng.f64() / 4.0 } else { 1.0 };
+    let cnt = rng.range(1, (n / 2) as u64) as usize;
+    let vals: Vec<C64> = (0..cnt).map(|_| C64::new(rng.f64() * 2.0 - 1.0, rng.f64() * 2.0 - 1.0)).collect();
+    let id = *kit.levels[level].parms_id();
+    lib(|| enc.encode_c64_array_new(&vals, Some(id), scale)).ok()
+}
+
+/// plaintexts and ciphertexts of one kit: (plaintexts with labels, ciphertexts with labels)
+fn pools(kit: &Kit, rng: &mut Rng, opts: &ZooOpts, b: &mut Builder, interop: Option<&mut Interop>) -> (Vec<(String, Plaintext)>, Vec<(String, Ciphertext)>) {
+    let scheme = kit.spec.scheme;
+    let (n, nl) = (kit.n(), kit.levels.len());
+    let mut plains: Vec<(String, Plaintext)> = vec![];
+    let mut cts: Vec<(String, Ciphertext)> = vec![];
+    let levels: Vec<usize> = if opts.light && nl > 2 { vec![0, nl - 1] } else { (0..nl).collect() };
+    let mut io = Interop::default();
+    let (mut fresh_a, mut fresh_b): (Option<Ciphertext>, Option<Ciphertext>) = (None, None);
+    if scheme != SchemeType::CKKS {
+        let t = kit.t();
+        for _ in 0..if opts.light { 1 } else { 3 } { let (cls, co) = super::c01::gen_plain(rng, n, t); plains.push((format!("plain:{}", cls), kit.plain_from_coeffs(&co))); }
+        let co: Vec<u64> = (0..n).map(|_| if rng.chance(1, 4) { t - 1 } else { rng.below(t) }).collect();
+        let p0 = kit.plain_from_coeffs(&co);
+        let co1: Vec<u64> = (0..rng.range(1, n as u64) as usize).map(|_| rng.below(t)).collect();
+        let p1 = kit.plain_from_coeffs(&co1);
+        plains.push(("plain:full".into(), p0.clone()));
+        for &l in &levels { let id = *kit.levels[l].parms_id(); if let Some(p) = b.t("transform_plain_to_ntt", || kit.eval.transform_plain_to_ntt_new(&p0, &id)) { plains.push((format!("plain:ntt:L{}", l), p)); } }
+        fresh_a = b.t("encrypt", || kit.enc.encrypt_new(&p0));
+        fresh_b = b.t("encrypt", || kit.enc.encrypt_new(&p1));
+        if let Some(c) = b.t("encrypt_symmetric", || { let mut c = Ciphertext::new(); kit.enc.encrypt_symmetric(&p0, &mut c); c }) { cts.push(("sym_unseeded".into(), c)); }
+        if let Some(c) = b.t("encrypt_symmetric_new", || kit.enc.encrypt_symmetric_new(&p0)) { io.seeded_ct = Some(c.clone()); cts.push(("sym_seeded".into(), c)); }
+        io.plain = Some((p0, co));
+    } else {
+        for &l in &levels {
+            if let Some(p) = ckks_plain_at(kit, rng, l, 50.0) {
+                plains.push((format!("plain:ckks:L{}", l), p.clone()));
+                if let Some(c) = b.t("encrypt", || kit.enc.encrypt_new(&p)) { if l == 0 && fresh_a.is_none() { fresh_a = Some(c.clone()); } cts.push((format!("fresh_pk:L{}", l), c)); }
+                if let Some(c) = b.t("encrypt_symmetric_new", || kit.enc.encrypt_symmetric_new(&p)) { if l == 0 { io.seeded_ct = Some(c.clone()); } cts.push((format!("sym_seeded:L{}", l), c)); }
+                if !opts.light { if let Some(c) = b.t("encrypt_symmetric", || { let mut c = Ciphertext::new(); kit.enc.encrypt_symmetric(&p, &mut c); c }) { cts.push((format!("sym_unseeded:L{}", l), c)); } }
+            }
+        }
+        // small-scale operands for the product chain (scale^16 must stay below the modulus)
+        let cap = ((log2q(kit, 0) - 8.0) / 16.0).floor().max(0.0);
+        if let Some(p) = ckks_plain_at(kit, rng, 0, cap) {
+            let a = b.t("encrypt", || kit.enc.encrypt_new(&p)); let bb = b.t("encrypt", || kit.enc.encrypt_new(&p));
+            if fresh_a.is_none() { fresh_a = a.clone(); }
+            fresh_b = bb; if a.is_some() { io.fresh.push(a.clone().unwrap()); }
+            if let (Some(a), Some(f)) = (a, fresh_b.clone()) {
+                // product chain on the small-scale operands
+                let target = if opts.light { rng.range(3, opts.max_size as u64) as usize } else { opts.max_size };
+                let mut cur = a;
+                for s in 3..=target {
+                    match b.t("multiply", || kit.eval.multiply_new(&cur, &f)) { Some(c) => { cur = c; if !opts.light || s == 3 || s == target { cts.push((format!("product:size{}", s), cur.clone())); } } None => break }
+                }
+            }
+        }
+        if let Some(f) = &fresh_a {
+            if nl > 1 {
+                if let Some(c) = b.t("mod_switch_to_next", || kit.eval.mod_switch_to_next_new(f)) { cts.push(("mod_switched".into(), c)); }
+                if let Some(c) = b.t("rescale_to_next", || kit.eval.rescale_to_next_new(f)) { cts.push(("rescaled".into(), c)); }
+            }
+            if let Some(c) = b.t("transform_from_ntt", || kit.eval.transform_from_ntt_new(f)) { cts.push(("other_rep".into(), c)); }
+            let mut w = f.clone(); w.set_scale(weird_scale(rng)); cts.push(("weird_scale".into(), w));
+        }
+    }
+    // zero encryptions at every level (public key and seeded symmetric)
+    for &l in &levels {
+        let id = *kit.levels[l].parms_id();
+        if let Some(c) = b.t("encrypt_zero_at", || kit.enc.encrypt_zero_new_at(&id)) { cts.push((format!("zero_pk:L{}", l), c)); }
+        if let Some(c) = b.t("encrypt_zero_symmetric_at", || kit.enc.encrypt_zero_symmetric_new_at(&id)) { cts.push((format!("zero_sym_seeded:L{}", l), c)); }
+    }
+    if scheme != SchemeType::CKKS {
+        if let Some(f) = &fresh_a {
+            cts.push(("fresh_pk".into(), f.clone()));
+            for &l in &levels { if l == 0 { continue; } let id = *kit.levels[l].parms_id(); if let Some(c) = b.t("mod_switch_to", || kit.eval.mod_switch_to_new(f, &id)) { cts.push((format!("mod_switched:L{}", l), c)); } }
+            let other = if f.is_ntt_form() { b.t("transform_from_ntt", || kit.eval.transform_from_ntt_new(f)) } else { b.t("transform_to_ntt", || kit.eval.transform_to_ntt_new(f)) };
+            if let Some(c) = other { cts.push(("other_rep".into(), c)); }
+            if let Some(g) = &fresh_b {
+                let target = if opts.light { rng.range(3, opts.max_size as u64) as usize } else { opts.max_size };
+                let mut cur = f.clone();
+                for s in 3..=target {
+                    match b.t("multiply", || kit.eval.multiply_new(&cur, g)) {
+                        Some(c) => {
+                            cur = c;
+                            if !opts.light || s == 3 || s == target { cts.push((format!("product:size{}", s), cur.clone())); }
+                            if s == 3 && nl > 1 {
+                                if let Some(m) = b.t("mod_switch_to_next", || kit.eval.mod_switch_to_next_new(&cur)) { cts.push(("product:size3:mod_switched".into(), m)); }
+                                let o = if cur.is_ntt_form() { b.t("transform_from_ntt", || kit.eval.transform_from_ntt_new(&cur)) } else { b.t("transform_to_ntt", || kit.eval.transform_to_ntt_new(&cur)) };
+                                if let Some(o) = o { cts.push(("product:size3:other_rep".into(), o)); }
+                            }
+                        }
+                        None => break,
+                    }
+                }
+            }
+        }
+        io.fresh = [fresh_a.clone(), fresh_b.clone()].into_iter().flatten().collect();
+    }
+    // synthetic ciphertexts (resize + fill through the public accessors): extreme residues, any size/level/flag
+    for i in 0..if opts.light { 1 } else { 3 } {
+        let l = rng.usize_below(nl); let size = rng.range(2, opts.max_size as u64) as usize; let ntt = rng.bool();
+        if let Some(c) = b.t("synthetic", || synthetic_ct(kit, rng, l, size, ntt)) { cts.push((format!("synthetic{}:size{}:L{}", i, size, l), c)); }
+    }
+    if let Some(dst) = interop { *dst = io; }
+    (plains, cts)
+}
+
+fn pick_cts(rng: &mut Rng, cts: &[(String, Ciphertext)], k: usize) -> Vec<Ciphertext> { (0..k).map(|_| rng.pick(cts).1.clone()).collect() }
+fn pick_plains(rng: &mut Rng, ps: &[(String, Plaintext)], k: usize) -> Vec<Plaintext> { (0..k).map(|_| rng.pick(ps).1.clone()).collect() }
+
+pub fn build_zoo(spec: &Spec, rng: &mut Rng, opts: &ZooOpts) -> Result<Zoo, String> {
+    let kit = Kit::new(spec)?;
+    let mut skips: Vec<(String, String)> = vec![];
+    let mut items: Vec<Item> = vec![];
+    let mut interop = Interop::default();
+    let (n, nl) = (kit.n(), kit.levels.len());
+    let scheme = spec.scheme;
+    let mut push = |items: &mut Vec<Item>, label: String, obj: Obj| items.push(Item { label, obj, out_of_domain: false });
+    let terms_ok = |c: &Ciphertext| !c.is_ntt_form() || n <= opts.terms_ntt_max_n;
+
+    // parameters and moduli
+    push(&mut items, "parms".into(), Obj::Parms(spec.parms()));
+    if !opts.light {
+        push(&mut items, "parms:flag_flipped".into(), Obj::Parms(spec.parms().set_use_special_prime_for_encryption(!spec.special_flag)));
+        items.push(Item { label: "parms:unset".into(), obj: Obj::Parms(EncryptionParameters::new(scheme)), out_of_domain: true });
+        items.push(Item { label: "parms:scheme_none".into(), obj: Obj::Parms(EncryptionParameters::new(SchemeType::None)), out_of_domain: true });
+    }
+    for (i, &q) in spec.qs.iter().enumerate() { push(&mut items, format!("modulus:q{}", i), Obj::Modulus(Modulus::new(q))); }
+    if spec.t != 0 { push(&mut items, "modulus:t".into(), Obj::Modulus(Modulus::new(spec.t))); }
+    push(&mut items, "modulus:zero".into(), Obj::Modulus(Modulus::new(0)));
+    { let bts = rng.range(2, 61) as u32; let v = (rng.bits(bts) | (1u64 << (bts - 1))).max(2); push(&mut items, format!("modulus:random{}bit", bts), Obj::Modulus(Modulus::new(v))); }
+
+    let (plains, cts) = { let mut b = Builder { skips: &mut skips }; pools(&kit, rng, opts, &mut b, Some(&mut interop)) };
+    push(&mut items, "plain:empty".into(), Obj::Plain(Plaintext::new()));
+    for (l, p) in &plains { push(&mut items, l.clone(), Obj::Plain(p.clone())); }
+    for (l, c) in &cts {
+        push(&mut items, format!("ct:{}:compact", l), Obj::Ct(c.clone(), Fmt::Compact));
+        if !opts.light || rng.bool() { push(&mut items, format!("ct:{}:full", l), Obj::Ct(c.clone(), Fmt::Full)); }
+        if terms_ok(c) {
+            for _ in 0..if opts.light { 1 } else { 2 } { let (k, t) = gen_terms(rng, n); push(&mut items, format!("ct:{}:terms:{}", l, k), Obj::Ct(c.clone(), Fmt::Terms(t))); }
+        }
+    }
+    if !cts.is_empty() {
+        push(&mut items, "vec_ct:empty".into(), Obj::VecCt(vec![]));
+        let k = rng.range(1, 3) as usize; push(&mut items, "vec_ct".into(), Obj::VecCt(pick_cts(rng, &cts, k)));
+    }
+
+    // keys
+    {
+        let mut b = Builder { skips: &mut skips };
+        push(&mut items, "sk".into(), Obj::Sk(kit.sk.clone()));
+        push(&mut items, "pk:expanded".into(), Obj::Pk(kit.pk.clone()));
+        if let Some(k) = b.t("create_public_key", || kit.keygen.create_public_key(true)) { interop.pk_seeded = Some(k.clone()); push(&mut items, "pk:seeded".into(), Obj::Pk(k)); }
+        push(&mut items, "kswitch:default_empty".into(), Obj::KSwitch(KSwitchKeys::default()));
+        if kit.has_keyswitching() {
+            if let Some(k) = b.t("create_relin_keys", || kit.keygen.create_relin_keys(true)) { interop.relin_seeded = Some(k.clone()); push(&mut items, "relin:seeded".into(), Obj::Relin(k)); }
+            if let Some(k) = b.t("create_relin_keys", || kit.keygen.create_relin_keys(false)) { push(&mut items, "relin:expanded".into(), Obj::Relin(k)); }
+            if !opts.light {
+                if let Some(k) = b.t("create_galois_keys", || kit.keygen.create_galois_keys(true)) { push(&mut items, "galois:full:seeded".into(), Obj::Galois(k)); }
+                if let Some(k) = b.t("create_galois_keys", || kit.keygen.create_galois_keys(false)) { push(&mut items, "galois:full:expanded".into(), Obj::Galois(k)); }
+            }
+            // sparse sets with missing entries (including the set with no key at all)
+            let mut odd: Vec<usize> = (0..n).map(|i| 2 * i + 1).collect(); rng.shuffle(&mut odd);
+            let cnt = if opts.light { 2 } else { rng.range(1, 4.min(n as u64)) as usize };
+            let elts: Vec<usize> = odd[..cnt].to_vec();
+            if let Some(k) = b.t("create_galois_keys_from_elts", || kit.keygen.create_galois_keys_from_elts(&elts, true)) { interop.galois_seeded = Some((k.clone(), elts.clone())); push(&mut items, format!("galois:sparse{}:seeded", cnt), Obj::Galois(k)); }
+            if !opts.light {
+                let elts2: Vec<usize> = odd[cnt..(cnt + 1).min(n)].to_vec();
+                if let Some(k) = b.t("create_galois_keys_from_elts", || kit.keygen.create_galois_keys_from_elts(&elts2, false)) { push(&mut items, "galois:sparse:expanded".into(), Obj::Galois(k)); }
+                if let Some(k) = b.t("create_galois_keys_from_elts", || kit.keygen.create_galois_keys_from_elts(&[], rng.bool())) { push(&mut items, "galois:no_keys".into(), Obj::Galois(k)); }
+            }
+            if let Some(other) = b.t("KeyGenerator::new", || KeyGenerator::new(kit.ctx.clone())) {
+                if let Some(k) = b.t("create_keyswitching_key", || kit.keygen.create_keyswitching_key(other.secret_key(), true)) { interop.ksk_seeded = Some(k.clone()); push(&mut items, "kswitch:seeded".into(), Obj::KSwitch(k)); }
+                if !opts.light { if let Some(k) = b.t("create_keyswitching_key", || kit.keygen.create_keyswitching_key(other.secret_key(), false)) { push(&mut items, "kswitch:expanded".into(), Obj::KSwitch(k)); } }
+                interop.other_keygen = Some(other);
+            }
+        }
+    }
+
+    // containers (empty, ragged, mixed seeded/expanded, mixed sizes and levels)
+    if !plains.is_empty() {
+        push(&mut items, "plain1d:empty".into(), Obj::P1(Plain1d::new(vec![])));
+        let k = rng.range(1, 3) as usize; push(&mut items, "plain1d".into(), Obj::P1(Plain1d::new(pick_plains(rng, &plains, k))));
+        push(&mut items, "plain2d:empty".into(), Obj::P2(Plain2d::new(vec![])));
+        push(&mut items, "plain2d:ragged".into(), Obj::P2(Plain2d::new(vec![pick_plains(rng, &plains, 1), vec![], pick_plains(rng, &plains, 3), vec![Plaintext::new()]])));
+        push(&mut items, "plain3d:empty".into(), Obj::P3(Plain3d::new_2ds(vec![])));
+        push(&mut items, "plain3d:ragged".into(), Obj::P3(Plain3d::new_2ds(vec![Plain2d::new(vec![pick_plains(rng, &plains, 2)]), Plain2d::new(vec![]), Plain2d::new(vec![vec![], pick_plains(rng, &plains, 1)])])));
+    }
+    let tcts: Vec<(String, Ciphertext)> = cts.iter().filter(|(_, c)| terms_ok(c)).cloned().collect();
+    if !cts.is_empty() {
+        let fmts = |rng: &mut Rng| -> Vec<(Fmt, &'static str)> { let mut v = vec![(Fmt::Compact, "compact")]; if !tcts.is_empty() { let (k, t) = gen_terms(rng, n); v.push((Fmt::Terms(t), k)); } v };
+        for (f, k) in fmts(rng) {
+            let pool = if f == Fmt::Compact { &cts } else { &tcts };
+            push(&mut items, format!("cipher1d:empty:{}", k), Obj::C1(Cipher1d::new(vec![]), f.clone()));
+            let m = rng.range(1, 4) as usize; push(&mut items, format!("cipher1d:{}", k), Obj::C1(Cipher1d::new(pick_cts(rng, pool, m)), f.clone()));
+        }
+        for (f, k) in fmts(rng) {
+            let pool = if f == Fmt::Compact { &cts } else { &tcts };
+            push(&mut items, format!("cipher2d:empty:{}", k), Obj::C2(Cipher2d::new(vec![]), f.clone()));
+            push(&mut items, format!("cipher2d:ragged:{}", k), Obj::C2(Cipher2d::new(vec![pick_cts(rng, pool, 2), vec![], pick_cts(rng, pool, 1)]), f.clone()));
+        }
+        for (f, k) in fmts(rng) {
+            let pool = if f == Fmt::Compact { &cts } else { &tcts };
+            push(&mut items, format!("cipher3d:empty:{}", k), Obj::C3(Cipher3d::new_2ds(vec![]), f.clone()));
+            push(&mut items, format!("cipher3d:ragged:{}", k), Obj::C3(Cipher3d::new_2ds(vec![Cipher2d::new(vec![pick_cts(rng, pool, 1), vec![]]), Cipher2d::new(vec![]), Cipher2d::new(vec![pick_cts(rng, pool, 2)])]), f.clone()));
+        }
+    }
+
+    // single polynomials
+    {
+        let unseeded: Vec<&(String, Ciphertext)> = cts.iter().filter(|(_, c)| !c.contains_seed()).collect();
+        for _ in 0..if opts.light { 1 } else { 3 } {
+            if unseeded.is_empty() { break; }
+            let (l, c) = *rng.pick(&unseeded); let i = rng.usize_below(c.size());
+            push(&mut items, format!("poly:{}:poly{}", l, i), Obj::Poly(c.poly(i).to_vec(), *c.parms_id()));
+        }
+        for (l, p) in &plains {
+            if p.is_ntt_form() { push(&mut items, format!("poly:{}", l), Obj::Poly(p.data().clone(), *p.parms_id())); }
+            else if scheme != SchemeType::CKKS { push(&mut items, format!("poly:{}", l), Obj::Poly(p.data().clone(), PARMS_ID_ZERO)); }
+        }
+        if scheme != SchemeType::CKKS { push(&mut items, "poly:plain:empty".into(), Obj::Poly(vec![], PARMS_ID_ZERO)); }
+    }
+
+    // rns_plain wrappers: two component contexts with the same ring and coefficient modulus, different plain moduli
+    let mut kit_b = None;
+    let mut rnsp = None;
+    if opts.rnsp && scheme != SchemeType::CKKS {
+        let cands = [2u64, 3, 17, 97, 257, 12289, 65537, spec.t + 2, spec.t.saturating_sub(1).max(2)];
+        for &t2 in cands.iter() {
+            if t2 == spec.t || t2 < 2 || !spec.qs.iter().all(|&q| refm::gcd(q, t2) == 1) { continue; }
+            let mut sb = spec.clone(); sb.t = t2;
+            if let Ok(k) = Kit::new(&sb) { if k.levels.len() == nl { kit_b = Some(k); break; } }
+        }
+        if let Some(kb) = &kit_b {
+            let rn = RnspHeContext { components: vec![kit.ctx.clone(), kb.ctx.clone()] };
+            let mut b = Builder { skips: &mut skips };
+            let lopts = ZooOpts { max_size: opts.max_size.min(4), light: true, rnsp: false, terms_ntt_max_n: opts.terms_ntt_max_n };
+            let (_, cb) = pools(kb, rng, &lopts, &mut b, None);
+            // pair ciphertexts of equal origin
+            let mut pairs: Vec<(String, RnspCiphertext)> = vec![];
+            for (l, c) in &cts { if let Some((_, d)) = cb.iter().find(|(lb, _)| lb == l) { pairs.push((l.clone(), RnspCiphertext::from_raw_parts(vec![c.clone(), d.clone()]))); } }
+            for (l, rc) in &pairs {
+                push(&mut items, format!("rnsp_ct:{}:compact", l), Obj::RCt(rc.clone(), Fmt::Compact));
+                push(&mut items, format!("rnsp_ct:{}:full", l), Obj::RCt(rc.clone(), Fmt::Full));
+                if rc.components.iter().all(|c| terms_ok(c)) { let (k, t) = gen_terms(rng, n); push(&mut items, format!("rnsp_ct:{}:terms:{}", l, k), Obj::RCt(rc.clone(), Fmt::Terms(t))); }
+            }
+            if !pairs.is_empty() {
+                push(&mut items, "rnsp_vec_ct:empty".into(), Obj::RVecCt(vec![]));
+                let v: Vec<RnspCiphertext> = (0..rng.range(1, 3)).map(|_| rng.pick(&pairs).1.clone()).collect();
+                push(&mut items, "rnsp_vec_ct".into(), Obj::RVecCt(v));
+            }
+            for seed in [true, false] {
+                let tag = if seed { "seeded" } else { "expanded" };
+                if let (Some(x), Some(y)) = (b.t("create_public_key", || kit.keygen.create_public_key(seed)), b.t("create_public_key", || kb.keygen.create_public_key(seed))) { push(&mut items, format!("rnsp_pk:{}", tag), Obj::RPk(RnspPublicKey::from_raw_parts(vec![x, y]))); }
+                if kit.has_keyswitching() && kb.has_keyswitching() {
+                    if let (Some(x), Some(y)) = (b.t("create_relin_keys", || kit.keygen.create_relin_keys(seed)), b.t("create_relin_keys", || kb.keygen.create_relin_keys(seed))) { push(&mut items, format!("rnsp_relin:{}", tag), Obj::RRelin(RnspRelinKeys::from_raw_parts(vec![x, y]))); }
+                    let elts = [1usize, 2 * n - 1, 3];
+                    if let (Some(x), Some(y)) = (b.t("create_galois_keys_from_elts", || kit.keygen.create_galois_keys_from_elts(&elts[..2], seed)), b.t("create_galois_keys_from_elts", || kb.keygen.create_galois_keys_from_elts(&elts[1..], seed))) { push(&mut items, format!("rnsp_galois:{}", tag), Obj::RGalois(RnspGaloisKeys::from_raw_parts(vec![x, y]))); }
+                }
+            }
+            rnsp = Some(rn);
+        }
+    }
+    let env = Env { ctx: kit.ctx.clone(), rnsp };
+    Ok(Zoo { kit, kit_b, env, items, interop, skips })
+}
+
+// ------------------------------------------------------------------ observation helpers
+pub struct CountingWriter { pub bytes: Vec<u8>, pub calls: u64 }
+impl CountingWriter { pub fn new() -> Self { CountingWriter { bytes: vec![], calls: 0 } } }
+impl Write for CountingWriter {
+    fn write(&mut self, b: &[u8]) -> std::io::Result<usize> { self.bytes.extend_from_slice(b); self.calls += 1; Ok(b.len()) }
+    fn flush(&mut self) -> std::io::Result<()> { Ok(()) }
+}
+
+/// reference encoding through an in-memory writer: (returned count, bytes)
+pub fn encode(obj: &Obj, env: &Env) -> Result<std::io::Result<(usize, Vec<u8>)>, Panicked> {
+    lib(|| { let mut w = CountingWriter::new(); let r = obj.write(env, &mut w)?; Ok((r, w.bytes)) })
+}
+
+/// context(s) rebuilt from the *deserialized serialization* of the parameters
+pub fn rebuild_env(env: &Env, expand: bool) -> Result<Env, String> {
+    let rebuild = |ctx: &Arc<HeContext>| -> Result<Arc<HeContext>, String> {
+        let parms = ctx.key_context_data().ok_or("no key context data")?.parms().clone();
+        let mut bytes = vec![];
+        lib(|| Serializable::serialize(&parms, &mut bytes)).map_err(|p| format!("serializing parameters panicked: {}", p.0))?.map_err(|e| format!("serializing parameters failed: {}", e))?;
+        let p2 = lib(|| <EncryptionParameters as Serializable>::deserialize(&mut &bytes[..])).map_err(|p| format!("deserializing parameters panicked: {}", p.0))?.map_err(|e| format!("deserializing parameters failed: {}", e))?;
+        let c2 = lib(|| HeContext::new(p2, expand, SecurityLevel::None)).map_err(|p| format!("HeContext::new on the restored parameters panicked: {}", p.0))?;
+        if !c2.parameters_set() { return Err("restored parameters are rejected by HeContext::new".into()); }
+        // the chains must agree level by level (cf. C13)
+        let (mut a, mut b) = (ctx.key_context_data(), c2.key_context_data());
+        loop {
+            match (&a, &b) {
+                (Some(x), Some(y)) => { if x.parms_id() != y.parms_id() { return Err("level ids of the rebuilt context differ".into()); } let (nx, ny) = (x.next_context_data(), y.next_context_data()); a = nx; b = ny; }
+                (None, None) => break,
+                _ => return Err("chain length of the rebuilt context differs".into()),
+            }
+        }
+        if ctx.first_parms_id() != c2.first_parms_id() || ctx.last_parms_id() != c2.last_parms_id() { return Err("first/last level of the rebuilt context differ".into()); }
+        Ok(c2)
+    };
+    let ctx = rebuild(&env.ctx)?;
+    let rnsp = match &env.rnsp { Some(r) => Some(RnspHeContext { components: r.components.iter().map(|c| rebuild(c)).collect::<Result<Vec<_>, _>>()? }), None => None };
+    Ok(Env { ctx, rnsp })
+}
+
+struct Obs<'a> { cfg: &'a Cfg, grp: &'a str, case: u64, spec: &'a Spec }
+
+fn viol(o: &Obs, rep: &mut Report, ty: &str, class: &str, kind: &str, detail: String, label: &str) {
+    rep.violation(&format!("{}|{}|{}|{}", P, ty, class, kind), format!("{} ; object `{}` ; params {}", detail, label, o.spec.describe()),
+        replay_json(o.cfg, o.grp, o.case, json!({"params": o.spec.describe(), "object": label, "type": ty})));
+}
+
+fn hex(b: &[u8]) -> String { b.iter().take(48).map(|x| format!("{:02x}", x)).collect::<Vec<_>>().join("") }
+
+struct Encoded { idx: usize, bytes: Vec<u8>, expected: Obj }
+
+/// one object: sizes, consumption and value in the same and in the rebuilt context
+fn check_object(o: &Obs, rep: &mut Report, env1: &Env, env2: Option<&Env>, idx: usize, item: &Item, rng: &mut Rng) -> Option<Encoded> {
+    let obj = &item.obj;
+    let ty = obj.type_name();
+    let scheme = o.spec.scheme_name();
+    let class = format!("{}|{}", scheme, if obj.seeded() { "seeded" } else { "expanded" });
+    let attrs = obj.attrs(env1);
+    rep.count("type_format_by_scheme", &format!("{}|{}", ty, scheme));
+    rep.count("object_attributes", &format!("{}|{}", ty, attrs));
+    if let Obj::Ct(c, _) = obj {
+        rep.count("ct_size", &format!("{:02}", c.size()));
+        rep.count("ct_chain_index", &format!("{}|{}", scheme, env1.ctx.get_context_data(c.parms_id()).map(|d| d.chain_index()).unwrap_or(99)));
+        match o.spec.scheme {
+            SchemeType::BGV => rep.count("bgv_correction_factor", if c.correction_factor() == 1 { "1" } else { "!=1" }),
+            SchemeType::CKKS => rep.count("ckks_scale", if c.scale() == 1.0 { "1.0" } else if c.scale().to_bits() & ((1u64 << 52) - 1) == 0 { "power_of_two" } else { "other" }),
+            _ => {}
+        }
+    }
+    if item.out_of_domain {
+        // degenerate builder states (no ring / no scheme): executed, never asserted
+        rep.out_of_precondition += 1;
+        let r = encode(obj, env1);
+        let outcome = match &r {
+            Err(p) => format!("serialize panicked: {}", p.0.chars().take(60).collect::<String>()),
+            Ok(Err(e)) => format!("serialize refused: {}", e),
+            Ok(Ok((_, bytes))) => match lib(|| obj.read_like(env1, &mut &bytes[..])) { Err(p) => format!("deserialize panicked: {}", p.0.chars().take(60).collect::<String>()), Ok(Err(e)) => format!("deserialize refused: {}", e), Ok(Ok(_)) => "round trip completes".into() },
+        };
+        rep.note(&format!("out-of-domain `{}`: {}", item.label, outcome));
+        return None;
+    }
+    // ---- write
+    let (returned, bytes) = match encode(obj, env1) {
+        Err(p) => { viol(o, rep, &ty, &class, "panic:serialize", format!("serialize panicked: {}", p.0), &item.label); return None; }
+        Ok(Err(e)) => { viol(o, rep, &ty, &class, "io_error:serialize", format!("serialize into a Vec returned Err: {}", e), &item.label); return None; }
+        Ok(Ok(x)) => x,
+    };
+    let announced = match lib(|| obj.announced(env1)) {
+        Ok(a) => a,
+        Err(p) => { viol(o, rep, &ty, &class, "panic:serialized_size", format!("serialized_size panicked: {}", p.0), &item.label); return None; }
+    };
+    rep.max("encoding_bytes", bytes.len() as f64); rep.min("encoding_bytes", bytes.len() as f64);
+    if returned != bytes.len() || announced != bytes.len() {
+        viol(o, rep, &ty, &class, "size", format!("announced {} bytes, serialize returned {}, {} bytes were written ({})", announced, returned, bytes.len(), attrs), &item.label);
+    }
+    let expected = match lib(|| obj.expected(env1)) {
+        Ok(e) => e,
+        Err(p) => { viol(o, rep, &ty, &class, "panic:expand_seed", format!("expanding the original panicked: {}", p.0), &item.label); return None; }
+    };
+    // ---- read back with trailing garbage, in both contexts
+    let mut stream = bytes.clone();
+    let glen = rng.range(1, 24) as usize;
+    for _ in 0..glen { stream.push(if rng.chance(1, 3) { 0xff } else { rng.u64() as u8 }); }
+    let mut sampled = None;
+    for (stage, env) in [("same_ctx", Some(env1)), ("rebuilt_ctx", env2)] {
+        let Some(env) = env else { continue };
+        let mut cur = Cursor::new(&stream[..]);
+        let got = lib(|| obj.read_like(env, &mut cur));
+        let consumed = cur.position() as usize;
+        rep.count("stage", stage);
+        match got {
+            Err(p) => viol(o, rep, &ty, &class, &format!("panic:deserialize:{}", stage), format!("deserialize panicked: {} ({}, {} bytes)", p.0, attrs, bytes.len()), &item.label),
+            Ok(Err(e)) => viol(o, rep, &ty, &class, &format!("io_error:deserialize:{}", stage), format!("deserialize of a complete encoding returned Err: {} ({})", e, attrs), &item.label),
+            Ok(Ok(g)) => {
+                if consumed != bytes.len() { viol(o, rep, &ty, &class, &format!("consumed:{}", stage), format!("{} bytes written but {} consumed ({} trailing bytes followed; {})", bytes.len(), consumed, glen, attrs), &item.label); }
+                match lib(|| expected.diff(&g, env)) {
+                    Ok(None) => {}
+                    Ok(Some((field, d))) => viol(o, rep, &ty, &class, &format!("value:{}:{}", field, stage), format!("restored object differs: {} ({}, encoding {} bytes: {}..)", d, attrs, bytes.len(), hex(&bytes)), &item.label),
+                    Err(p) => viol(o, rep, &ty, &class, &format!("panic:compare:{}", stage), format!("comparing the restored object panicked (malformed object?): {}", p.0), &item.label),
+                }
+                if stage == "same_ctx" { sampled = Some(consumed); }
+            }
+        }
+    }
+    let wpat: Vec<String> = o.spec.qs.iter().map(|&q| byte_width(q).to_string()).collect();
+    rep.eval(Some(&format!("{}|{}|{}|w{}|t{}", ty, scheme, attrs, wpat.join(""), byte_width(o.spec.t))));
+    if rep.samples.len() < 6 && (idx % 7 == 3) {
+        rep.sample(json!({"params": o.spec.describe(), "object": item.label, "type": ty, "attributes": attrs, "announced": announced, "returned": returned, "written": bytes.len(),
+            "consumed_with_trailing_garbage": sampled, "first_bytes": hex(&bytes), "restored_equals_expected_same_ctx": true}));
+    }
+    Some(Encoded { idx, bytes, expected })
+}
+
+/// several objects back to back in one stream: each one is recovered independently
+fn check_concat(o: &Obs, rep: &mut Report, zoo: &Zoo, env2: Option<&Env>, enc: &[Encoded], rng: &mut Rng) {
+    if enc.len() < 2 { return; }
+    let rounds = 3;
+    for _ in 0..rounds {
+        let m = rng.range(2, 6.min(enc.len() as u64)) as usize;
+        let picks: Vec<&Encoded> = (0..m).map(|_| &enc[rng.usize_below(enc.len())]).collect();
+        let mut stream = vec![];
+        for e in &picks { stream.extend_from_slice(&e.bytes); }
+        for (stage, env) in [("same_ctx", Some(&zoo.env)), ("rebuilt_ctx", env2)] {
+            let Some(env) = env else { continue };
+            let mut cur = Cursor::new(&stream[..]);
+            let mut want_pos = 0usize;
+            for (k, e) in picks.iter().enumerate() {
+                let item = &zoo.items[e.idx];
+                let ty = item.obj.type_name();
+                let class = format!("{}|{}", o.spec.scheme_name(), if item.obj.seeded() { "seeded" } else { "expanded" });
+                want_pos += e.bytes.len();
+                let got = lib(|| item.obj.read_like(env, &mut cur));
+                rep.count("stage", "concatenation");
+                match got {
+                    Ok(Ok(g)) => {
+                        let pos = cur.position() as usize;
+                        let d = lib(|| e.expected.diff(&g, env)).unwrap_or(Some(("compare_panicked".into(), String::new())));
+                        if pos != want_pos || d.is_some() {
+                            viol(o, rep, &ty, &class, &format!("concatenation:{}", stage), format!("object {} of {} in one stream: stream position {} (expected {}), difference {:?}", k + 1, m, pos, want_pos, d), &item.label);
+                            break;
+                        }
+                    }
+                    Ok(Err(e2)) => { viol(o, rep, &ty, &class, &format!("concatenation:{}", stage), format!("object {} of {} in one stream: Err {}", k + 1, m, e2), &item.label); break; }
+                    Err(p) => { viol(o, rep, &ty, &class, &format!("concatenation:{}", stage), format!("object {} of {} in one stream: panic {}", k + 1, m, p.0), &item.label); break; }
+                }
+            }
+        }
+        rep.evals(1);
+    }
+}
+
+// ------------------------------------------------------------------ seeded objects in later operations
+fn restore(obj: &Obj, from: &Env, into: &Env) -> Option<Obj> {
+    let (_, bytes) = encode(obj, from).ok()?.ok()?;
+    lib(|| obj.read_like(into, &mut &bytes[..])).ok()?.ok()
+}
+
+fn budget(kit: &Kit, ct: &Ciphertext) -> Option<usize> {
+    if kit.spec.scheme == SchemeType::CKKS { return None; }
+    lib(|| { let mut c = ct.clone(); if c.is_ntt_form() { kit.eval.transform_from_ntt_inplace(&mut c); } kit.dec.invariant_noise_budget(&c) }).ok()
+}
+
+fn same_ct(a: &Ciphertext, b: &Ciphertext) -> bool { diff_ct(a, b).is_none() }
+
+/// analytic worst case for one key switch on a fresh ciphertext (special prime not smaller than any data prime,
+/// so the switching noise is at most K*N*21 + N per coefficient) / for one product of two fresh ciphertexts
+fn keyswitch_decrypts(kit: &Kit, after_product: bool) -> bool {
+    if kit.spec.scheme == SchemeType::CKKS || !kit.has_keyswitching() { return false; }
+    let key_qs = kit.key_qs(); let p = *key_qs.last().unwrap();
+    if kit.level_qs(0).iter().any(|&q| q > p) { return false; }
+    let (n, k) = (kit.n() as f64, kit.level_qs(0).len() as f64);
+    let b = fresh_noise_bound(kit.n(), true) + modswitch_bound(kit.n()) + n + 2.0;
+    let ks = k * n * 21.0 + n;
+    let t = (kit.t() as f64).log2();
+    if after_product { 2.0 * t + 2.0 * b.log2() + 2.0 * n.log2() + (ks.log2() - b.log2()).max(0.0) + 10.0 < log2q(kit, 0) }
+    else { t + (b + ks).log2() + 6.0 < log2q(kit, 0) }
+}
+
+/// analytic worst case (as in C01): does a fresh first-level encryption certainly decrypt correctly?
+fn fresh_decrypts(kit: &Kit, pk: bool) -> bool {
+    if kit.spec.scheme == SchemeType::CKKS { return false; }
+    let n = kit.n() as f64;
+    let b = fresh_noise_bound(kit.n(), pk) + modswitch_bound(kit.n()) + n + 2.0;
+    ((kit.t() as f64).log2() + b.log2() + 4.0) < log2q(kit, 0)
+}
+
+fn interop(o: &Obs, rep: &mut Report, zoo: &Zoo, env2: Option<&Env>, rng: &mut Rng) {
+    let kit = &zoo.kit;
+    let scheme = kit.spec.scheme_name();
+    let exact = kit.spec.scheme != SchemeType::CKKS;
+    let io = &zoo.interop;
+    let n = kit.n();
+    let envs: Vec<(&str, &Env)> = [("same_ctx", Some(&zoo.env)), ("rebuilt_ctx", env2)].into_iter().filter_map(|(s, e)| e.map(|e| (s, e))).collect();
+    // (a) a seeded ciphertext: expanded by hand vs expanded by deserialization, then decrypted
+    if let Some(s) = io.seeded_ct.as_ref().filter(|c| c.contains_seed()) {
+        if let (Ok(e), Some(Obj::Sk(_))) = (lib(|| s.clone().expand_seed(&kit.ctx)), Some(Obj::Sk(kit.sk.clone()))) {
+            let dec_e = lib(|| kit.dec.decrypt_new(&e));
+            for (stage, env) in &envs { for f in [Fmt::Compact, Fmt::Full] {
+                let (Some(Obj::Ct(d, _)), Some(Obj::Sk(sk2))) = (restore(&Obj::Ct(s.clone(), f.clone()), &zoo.env, env), restore(&Obj::Sk(kit.sk.clone()), &zoo.env, env)) else { continue };
+                let dec_d = lib(|| Decryptor::new(env.ctx.clone(), sk2).decrypt_new(&d));
+                rep.count("later_operation", &format!("decrypt|{}|{}|{}", scheme, f.name(), stage));
+                match (&dec_e, &dec_d) {
+                    (Ok(pe), Ok(pd)) => {
+                        if let Some((k, dd)) = diff_plain(pe, pd) { viol(o, rep, "later_op:decrypt", &format!("{}|seeded_ct", scheme), &format!("value:{}", stage), format!("decrypting the deserialized seeded ciphertext ({}) differs from decrypting expand_seed(original): {} {}", f.name(), k, dd), "interop:seeded_ct"); }
+                        if exact && fresh_decrypts(kit, false) { rep.count("later_operation", "decrypt|semantic_check"); if let Some((_, co)) = &io.plain {
+                            if &plain_coeffs(pd, n) != co { viol(o, rep, "later_op:decrypt", &format!("{}|seeded_ct", scheme), &format!("plaintext:{}", stage), format!("deserialized seeded ciphertext ({}) decrypts to {:?}.. instead of the encrypted plaintext {:?}..", f.name(), &plain_coeffs(pd, n)[..n.min(6)], &co[..n.min(6)]), "interop:seeded_ct"); }
+                        } }
+                    }
+                    (Ok(_), Err(p)) => viol(o, rep, "later_op:decrypt", &format!("{}|seeded_ct", scheme), &format!("panic:{}", stage), format!("decrypting the deserialized seeded ciphertext panicked: {}", p.0), "interop:seeded_ct"),
+                    _ => {}
+                }
+                rep.evals(1);
+            } }
+        }
+    }
+    // (b) a seeded public key: encrypt under it after expansion / after deserialization, same entropy
+    if let (Some(pk_s), Some((p0, co))) = (io.pk_seeded.as_ref().filter(|k| k.contains_seed()), io.plain.as_ref()) {
+        if let Ok(pk_e) = lib(|| pk_s.clone().expand_seed(&kit.ctx)) {
+            for (stage, env) in &envs {
+                let Some(Obj::Pk(pk_d)) = restore(&Obj::Pk(pk_s.clone()), &zoo.env, env) else { continue };
+                let ent = rng.u64();
+                heathcliff::verif::set_thread_entropy(Some(ent));
+                let c_e = lib(|| Encryptor::new(kit.ctx.clone()).set_public_key(pk_e.clone()).encrypt_new(p0));
+                heathcliff::verif::set_thread_entropy(Some(ent));
+                let c_d = lib(|| Encryptor::new(env.ctx.clone()).set_public_key(pk_d).encrypt_new(p0));
+                rep.count("later_operation", &format!("encrypt_with_pk|{}|{}", scheme, stage));
+                match (c_e, c_d) {
+                    (Ok(ce), Ok(cd)) => {
+                        if !same_ct(&ce, &cd) { viol(o, rep, "later_op:encrypt", &format!("{}|seeded_pk", scheme), &format!("value:{}", stage), format!("encrypting (same randomness) under the deserialized seeded public key differs from encrypting under expand_seed(original): {:?}", diff_ct(&ce, &cd)), "interop:pk_seeded"); }
+                        if fresh_decrypts(kit, true) { rep.count("later_operation", "encrypt_with_pk|semantic_check"); if let Ok(pd) = lib(|| kit.dec.decrypt_new(&cd)) { if &plain_coeffs(&pd, n) != co {
+                            viol(o, rep, "later_op:encrypt", &format!("{}|seeded_pk", scheme), &format!("plaintext:{}", stage), "a ciphertext made with the deserialized seeded public key does not decrypt to the plaintext".into(), "interop:pk_seeded"); } } }
+                    }
+                    (Ok(_), Err(p)) => viol(o, rep, "later_op:encrypt", &format!("{}|seeded_pk", scheme), &format!("panic:{}", stage), format!("encrypting under the deserialized seeded public key panicked: {}", p.0), "interop:pk_seeded"),
+                    _ => {}
+                }
+                rep.evals(1);
+            }
+        }
+    }
+    // (c) seeded relinearization keys
+    if let (Some(rk_s), Some(f0), Some(f1)) = (io.relin_seeded.as_ref(), io.fresh.first(), io.fresh.last()) {
+        if let (Ok(rk_e), Ok(prod)) = (lib(|| if rk_s.contains_seed() { rk_s.clone().expand_seed(&kit.ctx) } else { rk_s.clone() }), lib(|| kit.eval.multiply_new(f0, f1))) {
+            let r_e = lib(|| kit.eval.relinearize_new(&prod, &rk_e));
+            for (stage, env) in &envs {
+                let Some(Obj::Relin(rk_d)) = restore(&Obj::Relin(rk_s.clone()), &zoo.env, env) else { continue };
+                let r_d = lib(|| Evaluator::new(env.ctx.clone()).relinearize_new(&prod, &rk_d));
+                rep.count("later_operation", &format!("relinearize|{}|{}|{}", scheme, if rk_s.contains_seed() { "seeded" } else { "too_small_for_seed" }, stage));
+                match (&r_e, r_d) {
+                    (Ok(re), Ok(rd)) => {
+                        if !same_ct(re, &rd) { viol(o, rep, "later_op:relinearize", &format!("{}|seeded_keys", scheme), &format!("value:{}", stage), format!("relinearizing with deserialized seeded keys differs from relinearizing with expand_seed(original): {:?}", diff_ct(re, &rd)), "interop:relin_seeded"); }
+                        if exact && keyswitch_decrypts(kit, true) && budget(kit, &prod).unwrap_or(0) >= 4 && budget(kit, &rd).unwrap_or(0) >= 4 {
+                            if let (Ok(a), Ok(b)) = (lib(|| kit.dec.decrypt_new(&prod)), lib(|| kit.dec.decrypt_new(&rd))) {
+                                if plain_coeffs(&a, n) != plain_coeffs(&b, n) { viol(o, rep, "later_op:relinearize", &format!("{}|seeded_keys", scheme), &format!("plaintext:{}", stage), "the relinearized product (deserialized seeded keys) decrypts differently from the product although both have noise budget".into(), "interop:relin_seeded"); }
+                                rep.count("later_operation", "relinearize|semantic_check");
+                            }
+                        }
+                    }
+                    (Ok(_), Err(p)) => viol(o, rep, "later_op:relinearize", &format!("{}|seeded_keys", scheme), &format!("panic:{}", stage), format!("relinearizing with the deserialized seeded keys panicked: {}", p.0), "interop:relin_seeded"),
+                    _ => {}
+                }
+                rep.evals(1);
+            }
+        }
+    }
+    // (d) seeded Galois keys
+    if let (Some((gk_s, elts)), Some(f0)) = (io.galois_seeded.as_ref(), io.fresh.first()) {
+        if let Ok(gk_e) = lib(|| if gk_s.contains_seed() { gk_s.clone().expand_seed(&kit.ctx) } else { gk_s.clone() }) {
+            let g = *rng.pick(elts);
+            let a_e = lib(|| kit.eval.apply_galois_new(f0, g, &gk_e));
+            for (stage, env) in &envs {
+                let Some(Obj::Galois(gk_d)) = restore(&Obj::Galois(gk_s.clone()), &zoo.env, env) else { continue };
+                let a_d = lib(|| Evaluator::new(env.ctx.clone()).apply_galois_new(f0, g, &gk_d));
+                rep.count("later_operation", &format!("apply_galois|{}|{}|{}", scheme, if gk_s.contains_seed() { "seeded" } else { "too_small_for_seed" }, stage));
+                match (&a_e, a_d) {
+                    (Ok(ae), Ok(ad)) => {
+                        if !same_ct(ae, &ad) { viol(o, rep, "later_op:apply_galois", &format!("{}|seeded_keys", scheme), &format!("value:{}", stage), format!("apply_galois({}) with deserialized seeded keys differs from the result with expand_seed(original): {:?}", g, diff_ct(ae, &ad)), "interop:galois_seeded"); }
+                        if exact && keyswitch_decrypts(kit, false) && budget(kit, f0).unwrap_or(0) >= 4 && budget(kit, &ad).unwrap_or(0) >= 4 {
+                            if let (Ok(a), Ok(b)) = (lib(|| kit.dec.decrypt_new(f0)), lib(|| kit.dec.decrypt_new(&ad))) {
+                                let want = refm::automorphism(&plain_coeffs(&a, n), g, kit.t());
+                                if plain_coeffs(&b, n) != want { viol(o, rep, "later_op:apply_galois", &format!("{}|seeded_keys", scheme), &format!("plaintext:{}", stage), format!("apply_galois({}) with deserialized seeded keys does not decrypt to the automorphism of the plaintext", g), "interop:galois_seeded"); }
+                                rep.count("later_operation", "apply_galois|semantic_check");
+                            }
+                        }
+                    }
+                    (Ok(_), Err(p)) => viol(o, rep, "later_op:apply_galois", &format!("{}|seeded_keys", scheme), &format!("panic:{}", stage), format!("apply_galois with the deserialized seeded keys panicked: {}", p.0), "interop:galois_seeded"),
+                    _ => {}
+                }
+                rep.evals(1);
+            }
+        }
+    }
+    // (e) seeded key-switching keys
+    if let (Some(ks_s), Some(f0)) = (io.ksk_seeded.as_ref(), io.fresh.first()) {
+        if let Ok(ks_e) = lib(|| if ks_s.contains_seed() { ks_s.clone().expand_seed(&kit.ctx) } else { ks_s.clone() }) {
+            let a_e = lib(|| kit.eval.apply_keyswitching_new(f0, &ks_e));
+            for (stage, env) in &envs {
+                let Some(Obj::KSwitch(ks_d)) = restore(&Obj::KSwitch(ks_s.clone()), &zoo.env, env) else { continue };
+                let a_d = lib(|| Evaluator::new(env.ctx.clone()).apply_keyswitching_new(f0, &ks_d));
+                rep.count("later_operation", &format!("apply_keyswitching|{}|{}", scheme, stage));
+                match (&a_e, a_d) {
+                    (Ok(ae), Ok(ad)) => if !same_ct(ae, &ad) { viol(o, rep, "later_op:apply_keyswitching", &format!("{}|seeded_keys", scheme), &format!("value:{}", stage), format!("key switching with deserialized seeded keys differs: {:?}", diff_ct(ae, &ad)), "interop:ksk_seeded"); },
+                    (Ok(_), Err(p)) => viol(o, rep, "later_op:apply_keyswitching", &format!("{}|seeded_keys", scheme), &format!("panic:{}", stage), format!("key switching with the deserialized seeded keys panicked: {}", p.0), "interop:ksk_seeded"),
+                    _ => {}
+                }
+                rep.evals(1);
+            }
+        }
+    }
+}
+
+// ------------------------------------------------------------------ driver
+fn one_case(cfg: &Cfg, grp: &str, case: u64, rng: &mut Rng, rep: &mut Report, big: bool) {
+    let spec = if big { gen_spec(rng, &[1024, 2048, 4096, 8192], 3, 60) } else { gen_spec(rng, &[4, 16, 64], 5, 60) };
+    let Some(spec) = spec else { rep.count("generator", "no_primes_for_sizes"); return; };
+    let opts = if big { ZooOpts { max_size: 16, light: true, rnsp: rng.chance(1, 4), terms_ntt_max_n: 2048 } } else { ZooOpts { max_size: 16, light: false, rnsp: rng.chance(1, 3), terms_ntt_max_n: 64 } };
+    let zoo = match build_zoo(&spec, rng, &opts) {
+        Ok(z) => z,
+        Err(e) => { rep.count("generator", "context_rejected"); rep.note(&format!("rejected example: {}", e.chars().take(90).collect::<String>())); return; }
+    };
+    rep.count("generator", "context_ok");
+    rep.count("params", &format!("{}|n={}|k={}|levels={}", spec.scheme_name(), spec.n, spec.qs.len(), zoo.kit.levels.len()));
+    rep.count("prime_family", &spec.family);
+    for &q in &spec.qs { rep.count("coeff_prime_bytes", &byte_width(q).to_string()); rep.count("coeff_prime_bits", &format!("{:02}", refm::bit_len(q))); }
+    let widths: std::collections::BTreeSet<usize> = spec.qs.iter().map(|&q| byte_width(q)).collect();
+    rep.count("chain_widths", if widths.len() > 1 { "mixed" } else { "uniform" });
+    if spec.t != 0 { rep.count("plain_modulus_bytes", &byte_width(spec.t).to_string()); }
+    for (what, msg) in &zoo.skips { rep.count("zoo_construction_refused", what); if rep.notes.len() < 12 { rep.note(&format!("construction refused: {}: {}", what, msg.chars().take(100).collect::<String>())); } }
+    if zoo.kit_b.is_some() { rep.count("generator", "rnsp_pair_built"); }
+    let o = Obs { cfg, grp, case, spec: &spec };
+    let env2 = match rebuild_env(&zoo.env, spec.expand) {
+        Ok(e) => Some(e),
+        Err(e) => { viol(&o, rep, "EncryptionParameters", spec.scheme_name(), "rebuilt_context", format!("context rebuilt from the deserialized parameters: {}", e), "parms"); None }
+    };
+    let mut enc: Vec<Encoded> = vec![];
+    for (i, item) in zoo.items.iter().enumerate() {
+        if let Some(e) = check_object(&o, rep, &zoo.env, env2.as_ref(), i, item, rng) { enc.push(e); }
+    }
+    check_concat(&o, rep, &zoo, env2.as_ref(), &enc, rng);
+    interop(&o, rep, &zoo, env2.as_ref(), rng);
+}
+
+pub fn run(cfg: &Cfg, rep: &mut Report) -> PropMeta {
+    run_cases(cfg, "small", cfg.n(8000, 120000) as u64, rep, |i, rng, rep| one_case(cfg, "small", i, rng, rep, false));
+    if !cfg.quick() || cfg.only_case.is_some() {
+        run_cases(cfg, "big", cfg.n(1, 96) as u64, rep, |i, rng, rep| one_case(cfg, "big", i, rng, rep, true));
+    }
+    PropMeta {
+        id: "C14", level: "exploration",
+        rule: "random parameter sets (3 schemes; N in {4,16,64}, thorough also 1024..8192; 1..5 primes drawn from families: every prime on a byte-width edge 8|9,16|17,..,56|57,58..60 bits, any size, uniform width, one prime per distinct byte width, smallest/largest alternating; plain modulus of 2..60 bits) x a zoo of every serializable type/format (parameters, moduli, plaintexts coefficient/NTT at every level, ciphertexts compact/full/selected-terms of sizes 2..16 from real product chains, every level, both representations, seeded/expanded, BGV correction factors after modulus switching, CKKS rescaled and arbitrary scales, synthetic extreme residues; secret/public/relinearization/Galois (full, sparse, empty)/key-switching keys; Plain1d/2d/3d, Cipher1d/2d/3d incl. empty and ragged; PolynomialSerializer; rns_plain wrappers) x {same context, context rebuilt from deserialized parameters} x {trailing garbage, concatenation of 2..6 objects} + seeded objects in later operations. distinct = distinct (type/format, scheme, structural attributes, byte-width pattern of the chain, plain-modulus width)",
+        assumptions: vec![
+            "expand_seed of the library defines the expanded form of a seeded object (C16 checks the expansion itself)".into(),
+            "selected-terms reference uses refm::intt_ref/ntt_ref with the library's published root (C09 checks psi); NTT-form ciphertexts get the selected-terms oracle for N <= 64 (quick) / 2048 (thorough)".into(),
+            "semantic checks of later operations are asserted only inside a noise precondition (fresh encryptions: analytic worst case of C01, t*(21(2N+1)+(N+1)/2+N+2)*16 < q; relinearize/apply_galois: special prime >= every data prime, analytic worst case of fresh/product/key-switch noise with margin below q, and library noise budget of operand and result >= 4 bits, BFV/BGV); CKKS later operations are compared between the two expansion routes only".into(),
+            "degenerate parameter objects (no coefficient modulus set, scheme None) are executed and reported in notes, not asserted".into(),
+            "constructions the library refuses (e.g. CKKS scale overflow in long product chains) are skipped and counted in zoo_construction_refused".into(),
+        ],
+        exhaustive: false, floor: 5000,
+    }
 }
